@@ -3,8 +3,3274 @@
 Everything is emitted as byte lists / small Nat codes (no `String` reduction is needed inside proofs).  An item that is
 not recognised is emitted as `opaque` (so the model and the driver still compile, but every theorem that unfolds it stops
 compiling) and recorded in the notes.
+
+The recognisers are SEMANTIC: they do not match source text, variable names or the helper a computation lives in.
+  Part A  a small symbolic evaluator (values of straight-line Python: names resolved through assignments, module constants,
+          imports and constructor attributes; calls into methods / functions / lambdas followed; conditions normalised; strings in
+          one flat normal form) runs every PUBLIC method of the adapter on symbolic arguments;
+  Part B  what reaches the HTTP client (`build_request` + `send`, `request`, `stream`, verb shortcuts) is collected as values;
+  Part C  an abstract interpretation of the effects on one stream object (seek / truncate / read) along normal and exceptional
+          paths, following helper calls, gives the rewind facts;
+  Part D  the facts are read off those values by parsing them with the grammar of SigV4 AND re-synthesising them with the
+          composition rules of `ReplicatModel/SigV4.lean` — a fact is emitted only if the re-synthesis is identical to what the
+          code computes, otherwise `opaque` / false / the unsafe value.
+(`tools/sections/12_retry.py` loads Parts A–C from this file.)
 """
 import ast
+import builtins as _builtins
+
+
+# =====================================================================================================================
+#  Part A — a small symbolic evaluator for straight-line Python (values, not syntax)
+#
+#  The recognisers below do not look at variable names, statement order or the helper a computation lives in.  They run the
+#  public methods of the adapter on symbolic arguments, follow calls into methods of `self`, module-level and nested functions,
+#  resolve names through assignments / module constants / imports, normalise conditions, and look at the VALUES that reach
+#  the HTTP client.  Strings are kept in one normal form (a flat list of constant characters and atomic terms), so that
+#  f-strings, `+`, `%`, `.format`, `.join` over lists / comprehensions / loops all denote the same thing.
+#  Whatever the evaluator does not understand becomes an `unknown` atom; a fact that needs it is then not recognised.
+# =====================================================================================================================
+class Unrec(Exception):
+    """a fact is not recognised"""
+
+
+HOLE = ('hole',)
+NONE = ('k', None)
+TRUE = ('k', True)
+FALSE = ('k', False)
+
+STRFTIME_WIDTH = {'Y': 4, 'm': 2, 'd': 2, 'H': 2, 'M': 2, 'S': 2, 'j': 3, 'y': 2}
+
+
+def S(kind, toks):
+    return ('S', kind, tuple(toks))
+
+
+def lift(v):
+    """Python constant → term"""
+    if isinstance(v, str):
+        return S('s', [('c', ch) for ch in v])
+    if isinstance(v, bytes):
+        return S('b', [('c', chr(x)) for x in v])
+    if isinstance(v, tuple):
+        return ('tuple', tuple(lift(x) for x in v))
+    return ('k', v)
+
+
+def is_S(t, kind=None):
+    return isinstance(t, tuple) and t and t[0] == 'S' and (kind is None or t[1] == kind)
+
+
+def const_of(t):
+    """term → (True, python value) when it is a constant"""
+    if is_S(t):
+        if all(x[0] == 'c' for x in t[2]):
+            s = ''.join(x[1] for x in t[2])
+            return True, (s if t[1] == 's' else s.encode('latin-1'))
+        return False, None
+    if isinstance(t, tuple) and t and t[0] == 'k':
+        return True, t[1]
+    if isinstance(t, tuple) and t and t[0] in ('tuple', 'list'):
+        vals = [const_of(x) for x in t[1]]
+        if all(ok for ok, _ in vals):
+            return True, (tuple if t[0] == 'tuple' else list)(v for _, v in vals)
+    return False, None
+
+
+def toks_of(t, kind='s'):
+    """term → token list of a string of the given kind (an atom becomes one token)"""
+    if is_S(t):
+        return list(t[2])
+    return [('t', t)]
+
+
+STRINGISH = ('quote', 'urlencode', 'hex', 'tf', 'join', 'tostr')
+
+
+def is_stringish(t):
+    return is_S(t) or (isinstance(t, tuple) and t and t[0] in STRINGISH)
+
+
+def encode_term(t):
+    """str term → bytes term (utf-8)"""
+    if is_S(t, 's'):
+        out = []
+        for x in t[2]:
+            if x[0] == 'c':
+                out += [('c', chr(b)) for b in x[1].encode('utf-8')]
+            else:
+                out.append(('t', ('enc', x[1])))
+        return S('b', out)
+    return S('b', [('t', ('enc', t))])
+
+
+def neg(c):
+    if c == TRUE:
+        return FALSE
+    if c == FALSE:
+        return TRUE
+    if c[0] == 'not':
+        return c[1]
+    return ('not', c)
+
+
+def conj(cs):
+    out = []
+    for c in cs:
+        if c == FALSE:
+            return FALSE
+        if c == TRUE:
+            continue
+        for d in (c[1] if c[0] == 'and' else (c,)):
+            if neg(d) in out:
+                return FALSE
+            if d not in out:
+                out.append(d)
+    if not out:
+        return TRUE
+    if len(out) == 1:
+        return out[0]
+    return ('and', tuple(sorted(out, key=repr)))
+
+
+def disj(cs):
+    return neg(conj([neg(c) for c in cs]))
+
+
+COND_KINDS = ('truthy', 'isnone', 'eq', 'not', 'and', 'isinst', 'cmp', 'in', 'exc', 'loop')
+
+
+def common_prefix(a, b):
+    n = 0
+    while n < len(a) and n < len(b) and a[n] == b[n]:
+        n += 1
+    return n
+
+
+def mk_phi(c, a, b):
+    """value-level conditional, normalised"""
+    if c == TRUE:
+        return a
+    if c == FALSE:
+        return b
+    if a == b:
+        return a
+    if c[0] == 'not':
+        return mk_phi(c[1], b, a)
+    if a is not None and b is not None and a[0] == 'raise':
+        return b
+    if a is not None and b is not None and b[0] == 'raise':
+        return a
+    if is_S(a) and is_S(b) and a[1] == b[1]:
+        ta, tb = list(a[2]), list(b[2])
+        p = common_prefix(ta, tb)
+        ra, rb = ta[p:], tb[p:]
+        s = common_prefix(ra[::-1], rb[::-1])
+        ma, mb = (ra[:len(ra) - s], rb[:len(rb) - s]) if s else (ra, rb)
+        suffix = ra[len(ra) - s:] if s else []
+        return S(a[1], ta[:p] + [('t', ('phi', c, S(a[1], ma), S(a[1], mb)))] + suffix)
+    if (a[0] in COND_KINDS or a in (TRUE, FALSE)) and (b[0] in COND_KINDS or b in (TRUE, FALSE)):
+        return disj([conj([c, a]), conj([neg(c), b])])
+    if a[0] == 'dict' and b[0] == 'dict':
+        return merge_dicts(c, a, b)
+    return ('phi', c, a, b)
+
+
+def merge_dicts(c, a, b):
+    ea, eb = list(a[1]), list(b[1])
+    p = common_prefix(ea, eb)
+    out = ea[:p]
+    for e in ea[p:]:
+        out.append(e[:-1] + (tuple(e[-1]) + (c,),))
+    for e in eb[p:]:
+        out.append(e[:-1] + (tuple(e[-1]) + (neg(c),),))
+    return ('dict', tuple(out))
+
+
+def as_cond(t):
+    """term → condition (its truth value)"""
+    if t[0] in COND_KINDS:
+        return t
+    ok, v = const_of(t)
+    if ok:
+        return TRUE if v else FALSE
+    if t[0] == 'dict':
+        if not t[1]:
+            return FALSE
+        if any(e[0] == 'kv' and not e[3] for e in t[1]):
+            return TRUE
+    if t[0] in ('list', 'tuple', 'set'):
+        return TRUE if t[1] else FALSE
+    if is_S(t):
+        if any(x[0] == 'c' for x in t[2]):
+            return TRUE
+    if t[0] == 'phi':
+        return disj([conj([t[1], as_cond(t[2])]), conj([neg(t[1]), as_cond(t[3])])])
+    if t[0] in ('hex', 'hash', 'hmac', 'func', 'rawfunc', 'bound', 'lambda', 'ext', 'self', 'now'):
+        return TRUE
+    return ('truthy', t)
+
+
+def is_none_cond(t):
+    ok, v = const_of(t)
+    if ok:
+        return TRUE if v is None else FALSE
+    if t[0] in ('S', 'dict', 'list', 'tuple', 'set', 'quote', 'urlencode', 'hex', 'hash', 'hmac', 'now', 'func', 'rawfunc', 'bound', 'lambda', 'self', 'ref'):
+        return FALSE
+    if t[0] == 'phi':
+        return disj([conj([t[1], is_none_cond(t[2])]), conj([neg(t[1]), is_none_cond(t[3])])])
+    return ('isnone', t)
+
+
+def eq_cond(a, b):
+    oa, va = const_of(a)
+    ob, vb = const_of(b)
+    if oa and ob:
+        return TRUE if va == vb else FALSE
+    if a == b and a[0] not in ('unknown', 'call', 'meth'):
+        return TRUE
+    x, y = sorted((a, b), key=repr)
+    return ('eq', x, y)
+
+
+class St:
+    """abstract state of one path: local names, the heap of mutable containers, attributes written on `self`"""
+    __slots__ = ('env', 'heap', 'selfw')
+
+    def __init__(self, env=None, heap=None, selfw=None):
+        self.env = env if env is not None else {}
+        self.heap = heap if heap is not None else {}
+        self.selfw = selfw if selfw is not None else {}
+
+    def copy(self):
+        return St(dict(self.env), dict(self.heap), dict(self.selfw))
+
+
+def merge_states(c, a, b):
+    if a is None:
+        return b
+    if b is None:
+        return a
+    out = St()
+    for k in set(a.env) | set(b.env):
+        va, vb = a.env.get(k), b.env.get(k)
+        if k == '__closure__':
+            out.env[k] = va if va is not None else vb
+        elif va is None or vb is None:
+            out.env[k] = mk_phi(c, va or ('unknown', 'unbound', k), vb or ('unknown', 'unbound', k))
+        else:
+            out.env[k] = mk_phi(c, va, vb)
+    for k in set(a.heap) | set(b.heap):
+        va, vb = a.heap.get(k), b.heap.get(k)
+        out.heap[k] = va if vb is None else vb if va is None else mk_phi(c, va, vb)
+    for k in set(a.selfw) | set(b.selfw):
+        va, vb = a.selfw.get(k, ('selfattr', k)), b.selfw.get(k, ('selfattr', k))
+        out.selfw[k] = mk_phi(c, va, vb)
+    return out
+
+
+def subst_hole(R, R2):
+    if R is None:
+        return R2
+    if R == HOLE:
+        return R2 if R2 is not None else HOLE
+    if R[0] == 'rphi':
+        return ('rphi', R[1], subst_hole(R[2], R2), subst_hole(R[3], R2))
+    return R
+
+
+class Mod:
+    """one parsed module: imports, module-level functions / classes / constants"""
+
+    def __init__(self, src, package='replicat.backends'):
+        self.tree = ast.parse(src)
+        self.package = package
+        self.funcs, self.classes, self.assigns, self.imports = {}, {}, {}, {}
+        for st in self.tree.body:
+            self._scan(st)
+
+    def _scan(self, st):
+        if isinstance(st, (ast.FunctionDef, ast.AsyncFunctionDef)):
+            self.funcs[st.name] = st
+            self.assigns.pop(st.name, None)
+            self.imports.pop(st.name, None)
+        elif isinstance(st, ast.ClassDef):
+            self.classes[st.name] = st
+        elif isinstance(st, ast.Assign):
+            for t in st.targets:
+                for n in ast.walk(t):
+                    if isinstance(n, ast.Name):
+                        if isinstance(t, ast.Name):
+                            self.assigns.setdefault(n.id, []).append(st.value)
+                        else:
+                            self.assigns.setdefault(n.id, []).append(None)
+                        self.imports.pop(n.id, None)
+                        self.funcs.pop(n.id, None)
+        elif isinstance(st, ast.AnnAssign) and isinstance(st.target, ast.Name) and st.value is not None:
+            self.assigns.setdefault(st.target.id, []).append(st.value)
+        elif isinstance(st, ast.AugAssign) and isinstance(st.target, ast.Name):
+            self.assigns.setdefault(st.target.id, []).append(None)
+        elif isinstance(st, ast.Import):
+            for a in st.names:
+                if a.asname:
+                    self.imports[a.asname] = a.name
+                else:
+                    self.imports[a.name.split('.')[0]] = a.name.split('.')[0]
+        elif isinstance(st, ast.ImportFrom):
+            base = self.rel(st.module, st.level)
+            for a in st.names:
+                self.imports[a.asname or a.name] = (base + '.' + a.name) if base else a.name
+        elif isinstance(st, (ast.If, ast.Try)):
+            for sub in ast.iter_child_nodes(st):
+                if isinstance(sub, ast.stmt):
+                    self._scan(sub)
+                elif isinstance(sub, ast.ExceptHandler):
+                    for x in sub.body:
+                        self._scan(x)
+
+    def rel(self, module, level):
+        if not level:
+            return module or ''
+        parts = self.package.split('.')
+        parts = parts[:len(parts) - (level - 1)] if level > 1 else parts
+        return '.'.join(parts + ([module] if module else []))
+
+
+PROPERTY_DECORATORS = ('builtins.property',)
+# (memoising decorators are NOT transparent: a cached clock reading or a cached key is a different program)
+PURE_DECORATORS = PROPERTY_DECORATORS + ('functools.wraps', 'staticmethod', 'builtins.staticmethod',
+                   'contextlib.contextmanager', 'contextlib.asynccontextmanager', 'abc.abstractmethod',
+                   'backoff.on_exception', 'backoff.on_predicate', 'replicat.utils.requires_auth', 'replicat.utils.disable_gc')
+LOGGER_METHODS = ('debug', 'info', 'warning', 'warn', 'error', 'exception', 'critical', 'log')
+
+
+class Sym:
+    """the evaluator; one instance per module + class"""
+    MAX_DEPTH = 8
+    MAX_UNROLL = 64
+
+    def __init__(self, mod, cls=None):
+        self.mod = mod
+        self.cls = mod.classes.get(cls) if isinstance(cls, str) else cls
+        self.uid = 0
+        self.trace = []            # external calls in evaluation order: (guards, term)
+        self.guards = []
+        self.stack = []
+        self.yields = []
+        self.modcache = {}
+        self.modbusy = set()
+        self.methods = {}
+        self.class_assigns = {}
+        if self.cls is not None:
+            for st in self.cls.body:
+                if isinstance(st, (ast.FunctionDef, ast.AsyncFunctionDef)):
+                    self.methods[st.name] = st
+                elif isinstance(st, ast.Assign) and len(st.targets) == 1 and isinstance(st.targets[0], ast.Name):
+                    self.class_assigns[st.targets[0].id] = st.value
+        self.ctor_attrs = None
+        self.keep_raises = False
+        self.raised = []           # (conditions, exception) of `raise` statements met inside followed calls (keep_raises only)
+
+    # ------------------------------------------------------------------ helpers
+    def fresh(self):
+        self.uid += 1
+        return self.uid
+
+    def unknown(self, why):
+        return ('unknown', why, self.fresh())
+
+    def new_ref(self, st, val):
+        n = self.fresh()
+        st.heap[n] = val
+        return ('ref', n)
+
+    def deref(self, t, st, depth=0):
+        """replace references by (a snapshot of) what they point to"""
+        if not isinstance(t, tuple) or depth > 12:
+            return t
+        if t and t[0] == 'ref':
+            return self.deref(st.heap.get(t[1], ('unknown', 'dangling', t[1])), st, depth + 1)
+        if t and t[0] in ('func', 'rawfunc', 'bound', 'lambda', 'k', 'ext'):
+            return t
+        if not self._has_ref(t):
+            return t
+        return tuple(self.deref(x, st, depth + 1) if isinstance(x, tuple) else x for x in t)
+
+    def _has_ref(self, t, depth=0):
+        if not isinstance(t, tuple) or depth > 14:
+            return False
+        if t and t[0] == 'ref':
+            return True
+        if t and t[0] in ('func', 'rawfunc', 'bound', 'lambda'):
+            return False
+        return any(self._has_ref(x, depth + 1) for x in t if isinstance(x, tuple))
+
+    def dotted_of_decorator(self, d):
+        """decorator expression → dotted name of what it finally applies (through module-level names / partial), or None"""
+        try:
+            v = self.ev(d.func if isinstance(d, ast.Call) else d, St())
+        except Exception:  # noqa: BLE001
+            return None
+        seen = 0
+        while seen < 6:
+            seen += 1
+            if v[0] == 'ext':
+                return v[1]
+            if v[0] == 'call' and isinstance(v[1], str):
+                if v[1] == 'functools.partial' and v[2]:
+                    v = v[2][0]
+                    continue
+                return v[1]
+            if v[0] == 'partial':
+                v = v[1]
+                continue
+            break
+        return None
+
+    # ------------------------------------------------------------------ name lookup
+    def lookup(self, name, st):
+        env = st.env
+        while env is not None:
+            if name in env:
+                return env[name]
+            env = env.get('__closure__')
+        return self.module_name(name)
+
+    def module_name(self, name):
+        m = self.mod
+        if name in m.funcs:
+            return ('func', m.funcs[name], None)
+        if name in m.assigns:
+            vals = m.assigns[name]
+            if len(vals) != 1 or vals[0] is None:
+                return ('unknown', 'module name assigned more than once', name)
+            if name in self.modcache:
+                return self.modcache[name]
+            if name in self.modbusy:
+                return ('unknown', 'cyclic module constant', name)
+            self.modbusy.add(name)
+            try:
+                ms = St()
+                saved = self.guards
+                self.guards = []
+                v = self.deref(self.ev(vals[0], ms), ms)
+                self.guards = saved
+            finally:
+                self.modbusy.discard(name)
+            if v[0] in ('dict', 'list', 'set') and self.module_mutates(name):
+                v = ('unknown', 'module-level container that the module changes', name)
+            self.modcache[name] = v
+            return v
+        if name in m.classes:
+            return ('class', name)
+        if name in m.imports:
+            return ('ext', m.imports[name])
+        if hasattr(_builtins, name):
+            return ('ext', 'builtins.' + name)
+        return ('unknown', 'unbound name', name)
+
+    MUTATORS = ('append', 'extend', 'insert', 'pop', 'popitem', 'remove', 'clear', 'update', 'setdefault', 'add', 'discard', 'sort', 'reverse',
+                '__setitem__', '__delitem__')
+
+    def module_mutates(self, name):
+        """is the module-level container `name` changed anywhere (item stores, mutating methods, rebinding through `global`)?"""
+        for n in ast.walk(self.mod.tree):
+            if isinstance(n, (ast.Subscript, ast.Attribute)) and isinstance(n.ctx, (ast.Store, ast.Del)) and isinstance(n.value, ast.Name) and n.value.id == name:
+                return True
+            if isinstance(n, ast.Call) and isinstance(n.func, ast.Attribute) and n.func.attr in self.MUTATORS and isinstance(n.func.value, ast.Name) and n.func.value.id == name:
+                return True
+            if isinstance(n, (ast.Global, ast.Nonlocal)) and name in n.names:
+                return True
+            if isinstance(n, ast.AugAssign) and isinstance(n.target, ast.Name) and n.target.id == name:
+                return True
+        return False
+
+    # ------------------------------------------------------------------ attributes of self
+    def self_param(self, fn):
+        a = fn.args
+        allp = a.posonlyargs + a.args
+        return allp[0].arg if allp else None
+
+    def init_attrs(self):
+        """attributes of `self` that are assigned in `__init__` only → their symbolic value in terms of the constructor's parameters"""
+        if self.ctor_attrs is not None:
+            return self.ctor_attrs
+        self.ctor_attrs = {}
+        init = self.methods.get('__init__')
+        stored_elsewhere = set()
+        dynamic = False
+        for name, fn in self.methods.items():
+            sp = self.self_param(fn)
+            for n in ast.walk(fn):
+                if isinstance(n, ast.Attribute) and isinstance(n.ctx, (ast.Store, ast.Del)) and isinstance(n.value, ast.Name) and n.value.id == sp:
+                    if name != '__init__':
+                        stored_elsewhere.add(n.attr)
+                if isinstance(n, ast.Call) and isinstance(n.func, ast.Name) and n.func.id in ('setattr', 'delattr'):
+                    dynamic = True
+                if isinstance(n, ast.Attribute) and n.attr == '__dict__':
+                    dynamic = True
+        self.state_attrs = stored_elsewhere
+        self.dynamic_attrs = dynamic
+        if init is None or dynamic:
+            return self.ctor_attrs
+        st = St()
+        a = init.args
+        params = a.posonlyargs + a.args + a.kwonlyargs
+        for i, p in enumerate(params):
+            st.env[p.arg] = ('self',) if i == 0 else ('ctor', p.arg)
+        if a.vararg:
+            st.env[a.vararg.arg] = ('unknown', 'ctor *args', 0)
+        if a.kwarg:
+            st.env[a.kwarg.arg] = ('unknown', 'ctor **kwargs', 0)
+        saved = (self.trace, self.guards)
+        self.trace, self.guards = [], []
+        try:
+            self.stack.append(init)
+            fall, R = self.exec_block(init.body, st)
+            self.stack.pop()
+            fin = self.fold(subst_hole(R, ('ret', NONE, fall)) if fall is not None else R)
+            if fin is not None:
+                _, fst = fin
+                for k, v in fst.selfw.items():
+                    if k not in stored_elsewhere:
+                        self.ctor_attrs[k] = self.deref(v, fst)
+        finally:
+            self.trace, self.guards = saved
+        return self.ctor_attrs
+
+    def self_attr(self, name, st):
+        if name in st.selfw:
+            return st.selfw[name]
+        if name in self.methods:
+            fn = self.methods[name]
+            if any(self.dotted_of_decorator(d) in PROPERTY_DECORATORS for d in fn.decorator_list):
+                return self.call_user(fn, None, ('self',), [], [], st)
+            return ('bound', fn)
+        attrs = self.init_attrs() if not (self.stack and self.stack[0].name == '__init__' and self.ctor_attrs == {}) else {}
+        if name in attrs:
+            return attrs[name]
+        if name in self.class_assigns and name not in getattr(self, 'state_attrs', ()):
+            tmp = St()
+            v = self.deref(self.ev(self.class_assigns[name], tmp), tmp)
+            if v[0] in ('dict', 'list', 'set'):
+                return ('unknown', 'class-level container', name)
+            return v
+        return ('selfattr', name)
+
+    # ------------------------------------------------------------------ expressions
+    def ev(self, node, st):
+        m = getattr(self, 'ev_' + type(node).__name__, None)
+        if m is None:
+            return self.unknown('expression ' + type(node).__name__)
+        return m(node, st)
+
+    def ev_Constant(self, node, st):
+        return lift(node.value)
+
+    def ev_Name(self, node, st):
+        return self.lookup(node.id, st)
+
+    def ev_Await(self, node, st):
+        return self.ev(node.value, st)
+
+    def ev_NamedExpr(self, node, st):
+        v = self.ev(node.value, st)
+        self.assign(node.target, v, st)
+        return v
+
+    def ev_Tuple(self, node, st):
+        return ('tuple', tuple(self.ev_seq(node.elts, st)))
+
+    def ev_List(self, node, st):
+        return self.new_ref(st, ('list', tuple(self.ev_seq(node.elts, st))))
+
+    def ev_Set(self, node, st):
+        return ('set', tuple(self.ev_seq(node.elts, st)))
+
+    def ev_seq(self, elts, st):
+        out = []
+        for e in elts:
+            if isinstance(e, ast.Starred):
+                items = self.concrete_items(self.ev(e.value, st), st)
+                if items is None:
+                    out.append(self.unknown('starred'))
+                else:
+                    out += items
+            else:
+                out.append(self.ev(e, st))
+        return out
+
+    def ev_Dict(self, node, st):
+        entries = []
+        for k, v in zip(node.keys, node.values):
+            if k is None:
+                entries += self.spread_entries(self.deref(self.ev(v, st), st), ())
+            else:
+                entries = self.dict_set(entries, self.ev(k, st), self.ev(v, st), ())
+        return self.new_ref(st, ('dict', tuple(entries)))
+
+    def spread_entries(self, t, guard):
+        if t[0] == 'dict':
+            return [e[:-1] + (tuple(e[-1]) + tuple(guard),) for e in t[1]]
+        if t[0] == 'phi' and t[2][0] == 'dict' and t[3][0] == 'dict':
+            return self.spread_entries(t[2], tuple(guard) + (t[1],)) + self.spread_entries(t[3], tuple(guard) + (neg(t[1]),))
+        return [('spread', t, tuple(guard))]
+
+    def dict_set(self, entries, k, v, guard):
+        entries = list(entries)
+        if not guard:
+            okk, kv = const_of(k)
+            for i, e in enumerate(entries):
+                if e[0] == 'kv' and not e[3] and e[1] == k and okk:
+                    entries[i] = ('kv', k, v, ())
+                    return entries
+        entries.append(('kv', k, v, tuple(guard)))
+        return entries
+
+    def ev_JoinedStr(self, node, st):
+        toks = []
+        for p in node.values:
+            if isinstance(p, ast.Constant):
+                toks += toks_of(lift(p.value))
+            else:
+                v = self.deref(self.ev(p.value, st), st)
+                spec = None
+                if p.format_spec is not None:
+                    sp = self.ev(p.format_spec, st)
+                    ok, spec = const_of(sp)
+                    if not ok:
+                        toks.append(('t', self.unknown('dynamic format spec')))
+                        continue
+                toks += toks_of(self.format_value(v, p.conversion, spec))
+        return S('s', toks)
+
+    def format_value(self, v, conversion, spec):
+        if conversion not in (-1, 115):
+            return ('fmt', v, conversion, spec)
+        if spec in (None, ''):
+            return v if is_S(v, 's') else S('s', [('t', v)])
+        if v[0] == 'now':
+            return self.strftime(v, spec)
+        return ('fmt', v, conversion, spec)
+
+    def strftime(self, now, fmt):
+        toks = []
+        i = 0
+        while i < len(fmt):
+            if fmt[i] == '%' and i + 1 < len(fmt):
+                if fmt[i + 1] == '%':
+                    toks.append(('c', '%'))
+                else:
+                    toks.append(('t', ('tf', now, fmt[i + 1])))
+                i += 2
+            else:
+                toks.append(('c', fmt[i]))
+                i += 1
+        return S('s', toks)
+
+    def ev_BinOp(self, node, st):
+        a = self.deref(self.ev(node.left, st), st)
+        b = self.deref(self.ev(node.right, st), st)
+        if isinstance(node.op, ast.Add):
+            if is_S(a) or is_S(b) or (is_stringish(a) and is_stringish(b)):
+                kind = a[1] if is_S(a) else b[1] if is_S(b) else 's'
+                if (is_S(a) and a[1] != kind) or (is_S(b) and b[1] != kind):
+                    return self.unknown('str + bytes')
+                return S(kind, toks_of(a) + toks_of(b))
+            if a[0] in ('list', 'tuple') and b[0] == a[0]:
+                return (a[0], a[1] + b[1])
+        if isinstance(node.op, ast.Mod) and is_S(a):
+            ok, f = const_of(a)
+            if ok and isinstance(f, str):
+                args = list(b[1]) if b[0] == 'tuple' else [b]
+                return self.printf(f, args)
+        if isinstance(node.op, ast.BitOr) and a[0] == 'dict' and b[0] == 'dict':
+            entries = list(a[1])
+            for e in b[1]:
+                entries = self.dict_set(entries, e[1], e[2], e[3]) if e[0] == 'kv' else entries + [e]
+            return ('dict', tuple(entries))
+        oa, va = const_of(a)
+        ob, vb = const_of(b)
+        if oa and ob and (not isinstance(va, (str, bytes)) or isinstance(node.op, ast.Mult)):
+            try:
+                return lift(eval(compile(ast.Expression(ast.BinOp(ast.Constant(va), node.op, ast.Constant(vb))), '<c>', 'eval'), {}))  # noqa: S307
+            except Exception:  # noqa: BLE001
+                pass
+        return ('binop', type(node.op).__name__, a, b)
+
+    def printf(self, f, args):
+        toks, i, k = [], 0, 0
+        while i < len(f):
+            if f[i] == '%' and i + 1 < len(f):
+                if f[i + 1] == '%':
+                    toks.append(('c', '%'))
+                elif f[i + 1] == 's' and k < len(args):
+                    toks += toks_of(args[k])
+                    k += 1
+                else:
+                    return self.unknown('printf format')
+                i += 2
+            else:
+                toks.append(('c', f[i]))
+                i += 1
+        if k != len(args):
+            return self.unknown('printf arity')
+        return S('s', toks)
+
+    def ev_UnaryOp(self, node, st):
+        if isinstance(node.op, ast.Not):
+            return neg(self.ev_cond(node.operand, st))
+        v = self.ev(node.operand, st)
+        ok, c = const_of(v)
+        if ok and isinstance(c, (int, float)) and isinstance(node.op, ast.USub):
+            return lift(-c)
+        return ('unop', type(node.op).__name__, v)
+
+    def ev_BoolOp(self, node, st):
+        vals = [self.deref(self.ev(v, st), st) for v in node.values]
+        if all(v[0] in COND_KINDS or v in (TRUE, FALSE) for v in vals):
+            return conj(vals) if isinstance(node.op, ast.And) else disj(vals)
+        out = vals[-1]
+        for v in reversed(vals[:-1]):
+            c = as_cond(v)
+            out = mk_phi(c, v, out) if isinstance(node.op, ast.Or) else mk_phi(c, out, v)
+        return out
+
+    def ev_Compare(self, node, st):
+        return self.ev_cond(node, st)
+
+    def ev_IfExp(self, node, st):
+        c = self.ev_cond(node.test, st)
+        if c == TRUE:
+            return self.ev(node.body, st)
+        if c == FALSE:
+            return self.ev(node.orelse, st)
+        a = self.deref(self.ev(node.body, st), st)
+        b = self.deref(self.ev(node.orelse, st), st)
+        return mk_phi(c, a, b)
+
+    def ev_Lambda(self, node, st):
+        return ('lambda', node, st.env)
+
+    def ev_Attribute(self, node, st):
+        obj = self.ev(node.value, st)
+        return self.get_attr(obj, node.attr, st)
+
+    def get_attr(self, obj, name, st):
+        if obj == ('self',):
+            return self.self_attr(name, st)
+        if obj[0] == 'ext':
+            return ('ext', obj[1] + '.' + name)
+        if obj[0] == 'class' and self.cls is not None and obj[1] == self.cls.name:
+            if name in self.methods:
+                return ('func', self.methods[name], None)
+            if name in self.class_assigns:
+                return self.ev(self.class_assigns[name], St())
+        d = self.deref(obj, st)
+        if d[0] == 'ns' and name in dict(d[1]):
+            return dict(d[1])[name]
+        return ('attr', d, name)
+
+    def ev_Subscript(self, node, st):
+        obj = self.deref(self.ev(node.value, st), st)
+        if isinstance(node.slice, ast.Slice):
+            lo = self.ev(node.slice.lower, st) if node.slice.lower is not None else NONE
+            hi = self.ev(node.slice.upper, st) if node.slice.upper is not None else NONE
+            ol, vl = const_of(lo)
+            oh, vh = const_of(hi)
+            if node.slice.step is None and ol and oh and is_S(obj):
+                r = self.slice_S(obj, vl, vh)
+                if r is not None:
+                    return r
+            if node.slice.step is None and ol and oh and obj[0] in ('list', 'tuple'):
+                return (obj[0], obj[1][vl:vh])
+            return ('slice', obj, lo, hi)
+        key = self.deref(self.ev(node.slice, st), st)
+        return self.get_item(obj, key)
+
+    def get_item(self, obj, key):
+        ok, kv = const_of(key)
+        if obj[0] in ('list', 'tuple') and ok and isinstance(kv, int) and -len(obj[1]) <= kv < len(obj[1]):
+            return obj[1][kv]
+        if obj[0] == 'dict' and ok:
+            hit = None
+            for e in obj[1]:
+                if e[0] != 'kv':
+                    hit = 'unsure'
+                elif e[1] == key:
+                    hit = e[2] if not e[3] else 'unsure'
+                elif not const_of(e[1])[0]:
+                    hit = 'unsure'
+            if hit is not None and hit != 'unsure':
+                return hit
+        return ('sub', obj, key)
+
+    def slice_S(self, s, lo, hi):
+        widths = []
+        for x in s[2]:
+            if x[0] == 'c':
+                widths.append(1)
+            elif x[1][0] == 'tf' and x[1][2] in STRFTIME_WIDTH:
+                widths.append(STRFTIME_WIDTH[x[1][2]])
+            else:
+                widths.append(None)
+        pos, bounds = 0, {0: 0}
+        for i, w in enumerate(widths):
+            if w is None:
+                break
+            pos += w
+            bounds[pos] = i + 1
+        else:
+            total = pos
+            lo = 0 if lo is None else lo
+            hi = total if hi is None else hi
+            if isinstance(lo, int) and isinstance(hi, int):
+                lo = max(0, lo + total) if lo < 0 else min(lo, total)
+                hi = max(0, hi + total) if hi < 0 else min(hi, total)
+                if lo in bounds and hi in bounds and lo <= hi:
+                    return S(s[1], s[2][bounds[lo]:bounds[hi]])
+            return None
+        lo = 0 if lo is None else lo
+        if isinstance(lo, int) and isinstance(hi, int) and 0 <= lo <= hi and lo in bounds and hi in bounds:
+            return S(s[1], s[2][bounds[lo]:bounds[hi]])
+        return None
+
+    def ev_ListComp(self, node, st):
+        r = self.comprehension(node, st, lambda s2: self.ev(node.elt, s2))
+        return self.unknown('comprehension') if r is None else ('list', tuple(r))
+
+    ev_GeneratorExp = ev_ListComp
+
+    def ev_SetComp(self, node, st):
+        r = self.comprehension(node, st, lambda s2: self.ev(node.elt, s2))
+        return self.unknown('comprehension') if r is None else ('set', tuple(r))
+
+    def ev_DictComp(self, node, st):
+        r = self.comprehension(node, st, lambda s2: (self.ev(node.key, s2), self.ev(node.value, s2)))
+        if r is None:
+            return self.unknown('comprehension')
+        entries = []
+        for k, v in r:
+            entries = self.dict_set(entries, k, v, ())
+        return ('dict', tuple(entries))
+
+    def comprehension(self, node, st, elt):
+        """unroll a comprehension over concrete sequences; None when that is not possible"""
+        out = []
+
+        def rec(i, s2):
+            if i == len(node.generators):
+                v = elt(s2)
+                out.append(tuple(self.deref(x, s2) for x in v) if isinstance(v, tuple) and v and isinstance(v[0], tuple) else self.deref(v, s2))
+                return True
+            g = node.generators[i]
+            if g.is_async:
+                return False
+            items = self.concrete_items(self.deref(self.ev(g.iter, s2), s2), s2)
+            if items is None or len(items) > self.MAX_UNROLL:
+                return False
+            for it in items:
+                s3 = St(dict(s2.env), s2.heap, s2.selfw)
+                self.assign(g.target, it, s3)
+                keep = True
+                for cnd in g.ifs:
+                    c = self.ev_cond(cnd, s3)
+                    if c == FALSE:
+                        keep = False
+                        break
+                    if c != TRUE:
+                        return False
+                if keep and not rec(i + 1, s3):
+                    return False
+            return True
+        inner = St({'__closure__': st.env}, st.heap, st.selfw)
+        ok = rec(0, inner)
+        return out if ok else None
+
+    def concrete_items(self, t, st):
+        """the elements a `for` over this value visits, when they are known"""
+        t = self.deref(t, st)
+        if t[0] in ('list', 'tuple', 'set'):
+            return list(t[1])
+        if t[0] == 'dict':
+            if all(e[0] == 'kv' and not e[3] for e in t[1]):
+                return [e[1] for e in t[1]]
+            return None
+        if t[0] in ('items', 'keys', 'values') and t[1][0] == 'dict':
+            d = t[1]
+            if all(e[0] == 'kv' and not e[3] for e in d[1]):
+                if t[0] == 'items':
+                    return [('tuple', (e[1], e[2])) for e in d[1]]
+                return [e[1] if t[0] == 'keys' else e[2] for e in d[1]]
+            return None
+        if t[0] == 'sorted':
+            items = self.concrete_items(t[1], st)
+            if items is not None:
+                vals = [const_of(x) for x in items]
+                if all(ok for ok, _ in vals):
+                    try:
+                        return [lift(v) for v in sorted(v for _, v in vals)]
+                    except TypeError:
+                        return None
+                if all(x[0] == 'tuple' and len(x[1]) == 2 and const_of(x[1][0])[0] for x in items):
+                    keys = [const_of(x[1][0])[1] for x in items]
+                    if len(set(map(repr, keys))) == len(keys):
+                        try:
+                            return [x for _, x in sorted(zip(keys, items), key=lambda p: p[0])]
+                        except TypeError:
+                            return None
+            return None
+        if t[0] == 'enumerate':
+            items = self.concrete_items(t[1], st)
+            return None if items is None else [('tuple', (lift(i), x)) for i, x in enumerate(items)]
+        if t[0] == 'zip':
+            cols = [self.concrete_items(x, st) for x in t[1]]
+            if all(c is not None for c in cols) and cols:
+                return [('tuple', tuple(r)) for r in zip(*cols)]
+            return None
+        ok, v = const_of(t)
+        if ok and isinstance(v, (str, bytes)) and len(v) <= self.MAX_UNROLL:
+            return [lift(v[i:i + 1]) for i in range(len(v))]
+        return None
+
+    # ------------------------------------------------------------------ conditions
+    def ev_cond(self, node, st):
+        if isinstance(node, ast.BoolOp):
+            cs = [self.ev_cond(v, st) for v in node.values]
+            return conj(cs) if isinstance(node.op, ast.And) else disj(cs)
+        if isinstance(node, ast.UnaryOp) and isinstance(node.op, ast.Not):
+            return neg(self.ev_cond(node.operand, st))
+        if isinstance(node, ast.Compare):
+            left = self.deref(self.ev(node.left, st), st)
+            cs = []
+            for op, comp in zip(node.ops, node.comparators):
+                right = self.deref(self.ev(comp, st), st)
+                cs.append(self.compare(op, left, right))
+                left = right
+            return conj(cs)
+        return as_cond(self.deref(self.ev(node, st), st))
+
+    def compare(self, op, a, b):
+        if isinstance(op, (ast.Is, ast.IsNot)):
+            if b == NONE:
+                c = is_none_cond(a)
+            elif a == NONE:
+                c = is_none_cond(b)
+            else:
+                c = ('cmp', 'is') + tuple(sorted((a, b), key=repr))
+            return c if isinstance(op, ast.Is) else neg(c)
+        if isinstance(op, (ast.Eq, ast.NotEq)):
+            c = None
+            for x, y in ((a, b), (b, a)):
+                ok, v = const_of(y)
+                if x[0] == 'len' and ok and v == 0:
+                    c = neg(as_cond(x[1]))
+            if c is None:
+                c = eq_cond(a, b)
+            return c if isinstance(op, ast.Eq) else neg(c)
+        if isinstance(op, (ast.In, ast.NotIn)):
+            c = ('in', a, b)
+            items = b[1] if b[0] in ('tuple', 'list', 'set') else None
+            if items is not None and len(items) == 1:
+                c = eq_cond(a, items[0])
+            return c if isinstance(op, ast.In) else neg(c)
+        oa, va = const_of(a)
+        ob, vb = const_of(b)
+        if oa and ob:
+            try:
+                r = {ast.Lt: va < vb, ast.LtE: va <= vb, ast.Gt: va > vb, ast.GtE: va >= vb}[type(op)]
+                return TRUE if r else FALSE
+            except Exception:  # noqa: BLE001
+                pass
+        if a[0] == 'len' and ob and isinstance(vb, int):
+            if (isinstance(op, ast.Gt) and vb == 0) or (isinstance(op, ast.GtE) and vb == 1):
+                return as_cond(a[1])
+            if (isinstance(op, ast.Lt) and vb == 1) or (isinstance(op, ast.LtE) and vb == 0):
+                return neg(as_cond(a[1]))
+        if isinstance(op, ast.Lt):
+            return ('cmp', '<', a, b)
+        if isinstance(op, ast.Gt):
+            return ('cmp', '<', b, a)
+        if isinstance(op, ast.LtE):
+            return neg(('cmp', '<', b, a))
+        if isinstance(op, ast.GtE):
+            return neg(('cmp', '<', a, b))
+        return ('cmp', type(op).__name__, a, b)
+
+    # ------------------------------------------------------------------ calls
+    def ev_args(self, node, st):
+        args = []
+        for a in node.args:
+            if isinstance(a, ast.Starred):
+                items = self.concrete_items(self.ev(a.value, st), st)
+                if items is None:
+                    return None, None
+                args += items
+            else:
+                args.append(self.ev(a, st))
+        kwargs = []
+        for k in node.keywords:
+            v = self.ev(k.value, st)
+            if k.arg is None:
+                d = self.deref(v, st)
+                ok, c = const_of(d)
+                if ok and c is None:
+                    return None, None
+                if d[0] != 'dict':
+                    return None, None
+                for e in d[1]:
+                    okk, kn = const_of(e[1]) if e[0] == 'kv' else (False, None)
+                    if e[0] != 'kv' or e[3] or not okk or not isinstance(kn, str):
+                        return None, None
+                    kwargs.append((kn, e[2]))
+            else:
+                kwargs.append((k.arg, v))
+        return args, kwargs
+
+    def ev_Call(self, node, st):
+        args, kwargs = self.ev_args(node, st)
+        if args is None:
+            # arguments not resolvable (`*x` / `**x` of an unknown value)
+            f = self.deref(self.ev(node.func, st), st) if not isinstance(node.func, ast.Attribute) else ('attr', self.deref(self.ev(node.func.value, st), st), node.func.attr)
+            t = ('call', f, ('unknown-args',), (), self.fresh())
+            self.trace.append((tuple(self.guards), t))
+            return t
+        if isinstance(node.func, ast.Attribute):
+            obj = self.ev(node.func.value, st)
+            return self.call_method(obj, node.func.attr, args, kwargs, st)
+        return self.call_value(self.ev(node.func, st), args, kwargs, st)
+
+    def call_value(self, f, args, kwargs, st):
+        if f[0] == 'rawfunc':
+            return self.call_user(f[1], f[2], None, args, kwargs, st, raw=True)
+        if f[0] == 'func':
+            return self.call_user(f[1], f[2], None, args, kwargs, st)
+        if f[0] == 'bound':
+            return self.call_user(f[1], None, ('self',), args, kwargs, st)
+        if f[0] == 'lambda':
+            return self.call_lambda(f, args, kwargs, st)
+        if f[0] == 'partial':
+            return self.call_value(f[1], list(f[2]) + list(args), list(f[3]) + list(kwargs), st)
+        if f[0] == 'ext':
+            return self.call_ext(f[1], args, kwargs, st)
+        if f[0] == 'class':
+            t = ('call', f, tuple(self.deref(a, st) for a in args), tuple((k, self.deref(v, st)) for k, v in kwargs), self.fresh())
+            return t
+        t = ('call', self.deref(f, st), tuple(self.deref(a, st) for a in args), tuple((k, self.deref(v, st)) for k, v in kwargs), self.fresh())
+        self.trace.append((tuple(self.guards), t))
+        return t
+
+    def call_lambda(self, f, args, kwargs, st):
+        node, closure = f[1], f[2]
+        env = self.bind(node.args, args, kwargs, St({'__closure__': closure}, st.heap, st.selfw), None)
+        if env is None:
+            return self.unknown('lambda arguments')
+        env['__closure__'] = closure
+        return self.ev(node.body, St(env, st.heap, st.selfw))
+
+    def bind(self, a, args, kwargs, defst, self_term):
+        """parameters ← arguments; None when they do not fit"""
+        env = {}
+        pos = list(a.posonlyargs) + list(a.args)
+        args = list(args)
+        if self_term is not None:
+            args = [self_term] + args
+        kw = dict(kwargs)
+        if len(kw) != len(kwargs):
+            return None
+        ndef = len(a.defaults)
+        for i, p in enumerate(pos):
+            if i < len(args):
+                env[p.arg] = args[i]
+                if p.arg in kw:
+                    return None
+            elif p.arg in kw and p not in a.posonlyargs:
+                env[p.arg] = kw.pop(p.arg)
+            else:
+                di = i - (len(pos) - ndef)
+                if di < 0:
+                    return None
+                env[p.arg] = self.ev(a.defaults[di], defst)
+        extra = args[len(pos):]
+        if extra:
+            if a.vararg is None:
+                return None
+            env[a.vararg.arg] = ('tuple', tuple(extra))
+        elif a.vararg is not None:
+            env[a.vararg.arg] = ('tuple', ())
+        for p, d in zip(a.kwonlyargs, a.kw_defaults):
+            if p.arg in kw:
+                env[p.arg] = kw.pop(p.arg)
+            elif d is not None:
+                env[p.arg] = self.ev(d, defst)
+            else:
+                return None
+        if kw:
+            if a.kwarg is None:
+                return None
+            env[a.kwarg.arg] = self.new_ref(defst, ('dict', tuple(('kv', lift(k), v, ()) for k, v in kw.items())))
+        elif a.kwarg is not None:
+            env[a.kwarg.arg] = self.new_ref(defst, ('dict', ()))
+        return env
+
+    def is_generator(self, fn):
+        todo = list(fn.body)
+        while todo:
+            n = todo.pop()
+            if isinstance(n, (ast.Yield, ast.YieldFrom)):
+                return True
+            if isinstance(n, (ast.FunctionDef, ast.AsyncFunctionDef, ast.Lambda, ast.ClassDef)):
+                continue
+            todo += list(ast.iter_child_nodes(n))
+        return False
+
+    def call_user(self, fn, closure, self_term, args, kwargs, st, raw=False):
+        decos = [self.dotted_of_decorator(d) for d in fn.decorator_list]
+        if any(d not in PURE_DECORATORS for d in decos) and not raw:
+            # decorators defined in this module (timing, logging …) are applied symbolically: the call goes through their wrappers
+            f = ('rawfunc', fn, closure)
+            ok = fn not in self.stack and len(self.stack) < self.MAX_DEPTH
+            for d, name in reversed(list(zip(fn.decorator_list, decos))):
+                if name in PURE_DECORATORS or not ok:
+                    continue
+                dv = self.ev(d, St())
+                if dv[0] not in ('func', 'lambda', 'partial'):
+                    ok = False
+                    break
+                f = self.deref(self.call_value(dv, [f], [], st), st)
+                if f[0] not in ('func', 'lambda', 'rawfunc'):
+                    ok = False
+            if ok:
+                return self.call_value(f, ([self_term] if self_term is not None else []) + list(args), kwargs, st)
+            t = ('call', ('func', fn, None), tuple(self.deref(a, st) for a in args), tuple((k, self.deref(v, st)) for k, v in kwargs), self.fresh())
+            self.trace.append((tuple(self.guards), ('opaque-decorator', fn.name, tuple(decos))))
+            return t
+        if fn in self.stack or len(self.stack) >= self.MAX_DEPTH:
+            return self.unknown('recursion / depth at ' + fn.name)
+        if any(d in ('staticmethod', 'builtins.staticmethod') for d in decos):
+            self_term = None
+        env = self.bind(fn.args, args, kwargs, St({'__closure__': closure}, st.heap, st.selfw), self_term)
+        if env is None:
+            return self.unknown('arguments of ' + fn.name)
+        env['__closure__'] = closure
+        inner = St(env, st.heap, st.selfw)
+        self.stack.append(fn)
+        self.yields.append([])
+        try:
+            fall, R = self.exec_block(fn.body, inner)
+        finally:
+            self.stack.pop()
+            ys = self.yields.pop()
+        R = subst_hole(R, ('ret', NONE, fall)) if fall is not None else R
+        if self.keep_raises:
+            for conds, kind, val in self.leaves(R):
+                if kind == 'raise':
+                    self.raised.append((tuple(self.guards) + tuple(conds), val))
+        fin = self.fold(R)
+        if fin is None:
+            # every path raises
+            return ('raise',)
+        val, fst = fin
+        h, w = dict(fst.heap), dict(fst.selfw)
+        st.heap.clear()
+        st.heap.update(h)
+        st.selfw.clear()
+        st.selfw.update(w)
+        if self.is_generator(fn):
+            if any(d in ('contextlib.contextmanager', 'contextlib.asynccontextmanager') for d in decos) and len(ys) == 1:
+                return ('cm', ys[0])
+            return ('gen', tuple(ys), self.fresh())
+        return val
+
+    def fold(self, R):
+        """tree of outcomes → (value, state) of the normal returns, merged; None when there is none"""
+        if R is None or R == HOLE:
+            return None
+        if R[0] == 'ret':
+            return (R[1], R[2])
+        if R[0] in ('raise', 'break', 'continue'):
+            return None
+        if R[0] == 'rphi':
+            a, b = self.fold(R[2]), self.fold(R[3])
+            if a is None:
+                return b
+            if b is None:
+                return a
+            va, vb = self.deref(a[0], a[1]) if self._has_ref(a[0]) and a[0] != b[0] else a[0], self.deref(b[0], b[1]) if self._has_ref(b[0]) and a[0] != b[0] else b[0]
+            return (mk_phi(R[1], va, vb), merge_states(R[1], a[1], b[1]))
+        return None
+
+    # ------------------------------------------------------------------ methods of values
+    def call_method(self, obj, name, args, kwargs, st):
+        if obj == ('self',):
+            f = self.self_attr(name, st)
+            return self.call_value(f, args, kwargs, st)
+        if obj[0] == 'ext':
+            return self.call_ext(obj[1] + '.' + name, args, kwargs, st)
+        if obj[0] == 'class' and self.cls is not None and obj[1] == self.cls.name and name in self.methods:
+            return self.call_user(self.methods[name], None, None, args, kwargs, st)
+        if obj[0] == 'ref':
+            r = self.ref_method(obj, name, args, kwargs, st)
+            if r is not None:
+                return r
+        d = self.deref(obj, st)
+        dargs = [self.deref(a, st) for a in args]
+        dkw = [(k, self.deref(v, st)) for k, v in kwargs]
+        r = self.value_method(d, name, dargs, dkw, st)
+        if r is not None:
+            return r
+        if obj[0] == 'ref':
+            st.heap[obj[1]] = self.unknown('mutated by .' + name)
+        t = ('meth', d, name, tuple(dargs), tuple(dkw), self.fresh())
+        self.trace.append((tuple(self.guards), t))
+        return t
+
+    def ref_method(self, ref, name, args, kwargs, st):
+        cur = st.heap.get(ref[1])
+        if cur is None:
+            return None
+        if cur[0] == 'dict':
+            if name == 'update':
+                entries = list(cur[1])
+                for a in args:
+                    d = self.deref(a, st)
+                    if d[0] == 'dict':
+                        for e in d[1]:
+                            entries = self.dict_set(entries, e[1], e[2], e[3]) if e[0] == 'kv' else entries + [e]
+                    else:
+                        items = self.concrete_items(d, st)
+                        if items is None or not all(x[0] == 'tuple' and len(x[1]) == 2 for x in items):
+                            entries.append(('spread', d, ()))
+                        else:
+                            for x in items:
+                                entries = self.dict_set(entries, x[1][0], x[1][1], ())
+                for k, v in kwargs:
+                    entries = self.dict_set(entries, lift(k), v, ())
+                st.heap[ref[1]] = ('dict', tuple(entries))
+                return NONE
+            if name == 'setdefault' and len(args) == 2:
+                key = self.deref(args[0], st)
+                if not any(e[0] != 'kv' or e[1] == key or not const_of(e[1])[0] for e in cur[1]) and const_of(key)[0]:
+                    st.heap[ref[1]] = ('dict', tuple(self.dict_set(cur[1], key, args[1], ())))
+                    return args[1]
+                st.heap[ref[1]] = self.unknown('setdefault')
+                return self.unknown('setdefault')
+            if name == 'copy' and not args:
+                return self.new_ref(st, cur)
+            if name in ('pop', 'popitem', 'clear', '__setitem__', '__delitem__'):
+                st.heap[ref[1]] = self.unknown('dict.' + name)
+                return self.unknown('dict.' + name)
+        if cur[0] == 'list':
+            if name == 'append' and len(args) == 1:
+                st.heap[ref[1]] = ('list', cur[1] + (args[0],))
+                return NONE
+            if name == 'extend' and len(args) == 1:
+                items = self.concrete_items(args[0], st)
+                st.heap[ref[1]] = ('list', cur[1] + tuple(items)) if items is not None else self.unknown('extend')
+                return NONE
+            if name == 'insert' and len(args) == 2 and const_of(args[0])[0]:
+                i = const_of(args[0])[1]
+                l = list(cur[1])
+                l.insert(i, args[1])
+                st.heap[ref[1]] = ('list', tuple(l))
+                return NONE
+            if name in ('sort', 'reverse', 'pop', 'remove', 'clear'):
+                st.heap[ref[1]] = self.unknown('list.' + name)
+                return self.unknown('list.' + name)
+        if cur[0] == 'hasher' and name == 'update' and len(args) == 1:
+            data = self.deref(args[0], st)
+            st.heap[ref[1]] = ('hasher', cur[1], S('b', toks_of(cur[2]) + toks_of(data)))
+            return NONE
+        if cur[0] == 'hmacobj' and name == 'update' and len(args) == 1:
+            data = self.deref(args[0], st)
+            st.heap[ref[1]] = ('hmacobj', cur[1], cur[2], S('b', toks_of(cur[3]) + toks_of(data)))
+            return NONE
+        return None
+
+    def value_method(self, d, name, args, kwargs, st):
+        kw = dict(kwargs)
+        if is_S(d):
+            ok, c = const_of(d)
+            if name == 'join' and len(args) == 1 and not kwargs:
+                items = self.concrete_items(args[0], st)
+                if items is None:
+                    return ('join', d, args[0])
+                toks = []
+                for i, it in enumerate(items):
+                    if i:
+                        toks += list(d[2])
+                    toks += toks_of(self.deref(it, st))
+                return S(d[1], toks)
+            if name == 'encode' and d[1] == 's' and self.utf8_args(args, kwargs):
+                return encode_term(d)
+            if name == 'format' and ok and isinstance(c, str):
+                return self.str_format(c, args, kw)
+            if name == 'hex' and d[1] == 'b' and not args:
+                return ('hex', d)
+            if name == 'decode' and d[1] == 'b' and self.utf8_args(args, kwargs) and all(x[0] == 'c' and ord(x[1]) < 128 or x[0] == 't' and x[1][0] == 'enc' for x in d[2]):
+                return S('s', [x if x[0] == 'c' else ('t', x[1][1]) for x in d[2]])
+            return None
+        if name == 'encode' and self.utf8_args(args, kwargs) and d[0] in STRINGISH + ('param', 'ctor', 'phi', 'fmt', 'attr', 'sub', 'selfattr'):
+            return encode_term(d)
+        if d[0] in ('dict',) or (d[0] in ('param', 'ctor', 'phi', 'sub', 'attr') and name in ('items', 'keys', 'values') and not args):
+            if name in ('items', 'keys', 'values') and not args:
+                return (name, d)
+            if name == 'get' and args and d[0] == 'dict':
+                r = self.get_item(d, args[0])
+                if r[0] != 'sub':
+                    return r
+                if all(e[0] == 'kv' and const_of(e[1])[0] and e[1] != args[0] for e in d[1]) and const_of(args[0])[0]:
+                    return args[1] if len(args) > 1 else NONE
+                return None
+            if name == 'copy' and not args and d[0] == 'dict':
+                return self.new_ref(st, d)
+        if d[0] == 'hasher':
+            if name == 'hexdigest' and not args:
+                return ('hex', ('hash', d[1], d[2]))
+            if name == 'digest' and not args:
+                return ('hash', d[1], d[2])
+            if name == 'copy':
+                return self.new_ref(st, d)
+        if d[0] == 'hmacobj':
+            if name == 'hexdigest' and not args:
+                return ('hex', ('hmac', d[1], d[2], d[3]))
+            if name == 'digest' and not args:
+                return ('hmac', d[1], d[2], d[3])
+        if d[0] in ('hash', 'hmac') and name == 'hex' and not args:
+            return ('hex', d)
+        if d[0] == 'now':
+            if name == 'strftime' and len(args) == 1 and const_of(args[0])[0]:
+                return self.strftime(d, const_of(args[0])[1])
+            if name == '__format__' and len(args) == 1 and const_of(args[0])[0]:
+                return self.strftime(d, const_of(args[0])[1])
+            if name in ('replace', 'astimezone') and name == 'replace' and set(kw) <= {'tzinfo'}:
+                return d
+        if d == ('logger',) and name in LOGGER_METHODS + ('isEnabledFor', 'setLevel', 'getChild'):
+            return NONE if name in LOGGER_METHODS else ('unknown', 'logger.' + name, 0)
+        if d[0] == 'attr' and d[2] in ('logger', 'log', '_logger') and name in LOGGER_METHODS:
+            return NONE
+        return None
+
+    def utf8_args(self, args, kwargs):
+        vals = list(args) + [v for _, v in kwargs]
+        if len(vals) > 2:
+            return False
+        for i, v in enumerate(vals):
+            ok, c = const_of(v)
+            if not ok or not isinstance(c, str):
+                return False
+            c = c.lower().replace('_', '-')
+            if i == 0 and (not kwargs or kwargs[0][0] == 'encoding' or args) and c not in ('utf-8', 'utf8', 'ascii', 'us-ascii', 'strict'):
+                return False
+        return True
+
+    def str_format(self, f, args, kw):
+        import string
+        toks, auto = [], 0
+        try:
+            for lit, field, spec, conv in string.Formatter().parse(f):
+                toks += toks_of(lift(lit))
+                if field is None:
+                    continue
+                if spec or conv:
+                    return self.unknown('format spec')
+                if field == '':
+                    v = args[auto]
+                    auto += 1
+                elif field.isdigit():
+                    v = args[int(field)]
+                elif field in kw:
+                    v = kw[field]
+                else:
+                    return self.unknown('format field')
+                toks += toks_of(v)
+        except (IndexError, ValueError):
+            return self.unknown('format string')
+        return S('s', toks)
+
+    # ------------------------------------------------------------------ library models
+    def call_ext(self, dotted, args, kwargs, st):
+        dargs = [self.deref(a, st) for a in args]
+        dkw = [(k, self.deref(v, st)) for k, v in kwargs]
+        m = getattr(self, 'ext_' + dotted.replace('.', '_'), None)
+        if m is not None:
+            r = m(args, dargs, dict(dkw), st)
+            if r is not None:
+                return r
+        if dotted == 'logging.getLogger':
+            return ('logger',)
+        if dotted.startswith('logging.') or dotted in ('builtins.print', 'warnings.warn'):
+            return NONE
+        t = ('call', dotted, tuple(dargs), tuple(dkw), self.fresh())
+        self.trace.append((tuple(self.guards), t))
+        return t
+
+    def _quote(self, plus, raw, args, kw):
+        if not 1 <= len(args) <= 2 or set(kw) - {'safe'}:
+            return None
+        safe = args[1] if len(args) == 2 else kw.get('safe', lift('' if plus else '/'))
+        if len(args) == 2 and 'safe' in kw:
+            return None
+        ok, sv = const_of(safe)
+        if not ok or not isinstance(sv, (str, bytes)):
+            return None
+        if isinstance(sv, str):
+            sv = sv.encode('ascii', 'ignore')
+        return ('quote', args[0], bytes(sorted(set(c for c in sv if c < 128))), plus)
+
+    def ext_urllib_parse_quote(self, raw, args, kw, st):
+        return self._quote(False, raw, args, kw)
+
+    def ext_urllib_parse_quote_plus(self, raw, args, kw, st):
+        return self._quote(True, raw, args, kw)
+
+    def ext_urllib_parse_urlencode(self, raw, args, kw, st):
+        if len(args) != 1 or set(kw) - {'quote_via', 'safe', 'doseq'}:
+            return None
+        via = kw.get('quote_via', ('ext', 'urllib.parse.quote_plus'))
+        if via not in (('ext', 'urllib.parse.quote_plus'), ('ext', 'urllib.parse.quote')):
+            return None
+        ok, sv = const_of(kw.get('safe', lift('')))
+        if not ok or not isinstance(sv, (str, bytes)):
+            return None
+        if 'doseq' in kw and kw['doseq'] != FALSE:
+            return None
+        if isinstance(sv, str):
+            sv = sv.encode('ascii', 'ignore')
+        seq = args[0]
+        if seq[0] == 'dictof':
+            seq = seq[1]
+        elif seq[0] in ('dict', 'param', 'ctor') or (seq[0] == 'phi'):
+            seq = ('items', seq)
+        return ('urlencode', seq, via[1].split('.')[-1], bytes(sorted(set(c for c in sv if c < 128))))
+
+    def ext_builtins_sorted(self, raw, args, kw, st):
+        if len(args) != 1 or set(kw) - {'key'}:
+            return None
+        if 'key' in kw:
+            # sorting (name, value) pairs of a dict by the name is sorting the pairs (names are unique)
+            k = kw['key']
+            by_first = (k[0] == 'call' and k[1] == 'operator.itemgetter' and k[2] == (lift(0),)) or \
+                (k[0] == 'lambda' and len(k[1].args.args) == 1 and isinstance(k[1].body, ast.Subscript) and isinstance(k[1].body.value, ast.Name)
+                 and k[1].body.value.id == k[1].args.args[0].arg and isinstance(k[1].body.slice, ast.Constant) and k[1].body.slice.value == 0)
+            if not (by_first and args[0][0] == 'items'):
+                return None
+        if args[0][0] == 'sorted':
+            return args[0]
+        return ('sorted', args[0])
+
+    def ext_operator_itemgetter(self, raw, args, kw, st):
+        return ('call', 'operator.itemgetter', tuple(args), (), 0) if not kw else None
+
+    def ext_builtins_dict(self, raw, args, kw, st):
+        if not args:
+            return self.new_ref(st, ('dict', tuple(('kv', lift(k), v, ()) for k, v in kw.items())))
+        if len(args) == 1 and not kw:
+            a = args[0]
+            if a[0] == 'dict':
+                return self.new_ref(st, a)
+            if a[0] in ('sorted', 'items'):
+                return ('dictof', a)
+            items = self.concrete_items(a, st)
+            if items is not None and all(x[0] == 'tuple' and len(x[1]) == 2 for x in items):
+                entries = []
+                for x in items:
+                    entries = self.dict_set(entries, x[1][0], x[1][1], ())
+                return self.new_ref(st, ('dict', tuple(entries)))
+        return None
+
+    def ext_builtins_list(self, raw, args, kw, st):
+        if not args and not kw:
+            return self.new_ref(st, ('list', ()))
+        if len(args) == 1 and not kw:
+            items = self.concrete_items(args[0], st)
+            if items is not None:
+                return self.new_ref(st, ('list', tuple(items)))
+            if args[0][0] in ('sorted', 'items', 'keys', 'values'):
+                return args[0]
+        return None
+
+    def ext_builtins_tuple(self, raw, args, kw, st):
+        if len(args) == 1 and not kw:
+            items = self.concrete_items(args[0], st)
+            if items is not None:
+                return ('tuple', tuple(items))
+            if args[0][0] in ('sorted', 'items', 'keys', 'values'):
+                return args[0]
+        return ('tuple', ()) if not args and not kw else None
+
+    def ext_builtins_str(self, raw, args, kw, st):
+        if len(args) == 1 and not kw:
+            a = args[0]
+            if is_S(a, 's'):
+                return a
+            ok, c = const_of(a)
+            if ok and isinstance(c, (int, bool, type(None))):
+                return lift(str(c))
+            if a[0] in STRINGISH:
+                return S('s', [('t', a)])
+            return ('tostr', a)
+        if len(args) in (2, 3) and is_S(args[0], 'b') and self.utf8_args(args[1:], []):
+            return self.value_method(args[0], 'decode', [], [], st)
+        return lift('') if not args and not kw else None
+
+    def ext_builtins_bytes(self, raw, args, kw, st):
+        if len(args) >= 2 and self.utf8_args(args[1:], list(kw.items())):
+            return encode_term(args[0])
+        if len(args) == 1 and is_S(args[0], 'b'):
+            return args[0]
+        return lift(b'') if not args and not kw else None
+
+    def ext_builtins_len(self, raw, args, kw, st):
+        if len(args) == 1 and not kw:
+            ok, c = const_of(args[0])
+            if ok and isinstance(c, (str, bytes, tuple, list)):
+                return lift(len(c))
+            return ('len', args[0])
+        return None
+
+    def ext_builtins_bool(self, raw, args, kw, st):
+        return as_cond(args[0]) if len(args) == 1 and not kw else None
+
+    def ext_builtins_isinstance(self, raw, args, kw, st):
+        return ('isinst', args[0], args[1]) if len(args) == 2 else None
+
+    def ext_builtins_format(self, raw, args, kw, st):
+        if len(args) == 2 and const_of(args[1])[0]:
+            return self.format_value(args[0], -1, const_of(args[1])[1])
+        if len(args) == 1:
+            return self.format_value(args[0], -1, None)
+        return None
+
+    def ext_builtins_enumerate(self, raw, args, kw, st):
+        return ('enumerate', args[0]) if len(args) == 1 and not kw else None
+
+    def ext_builtins_zip(self, raw, args, kw, st):
+        return ('zip', tuple(args)) if not kw else None
+
+    def ext_builtins_map(self, raw, args, kw, st):
+        if len(args) == 2 and not kw:
+            items = self.concrete_items(args[1], st)
+            if items is not None and len(items) <= self.MAX_UNROLL:
+                return ('tuple', tuple(self.deref(self.call_value(raw[0], [x], [], st), st) for x in items))
+        return None
+
+    def ext_builtins_iter(self, raw, args, kw, st):
+        if len(args) == 1:
+            return args[0]
+        return None
+
+    def ext_functools_reduce(self, raw, args, kw, st):
+        if kw or len(args) not in (2, 3):
+            return None
+        items = self.concrete_items(args[1], st)
+        if items is None or len(items) > self.MAX_UNROLL or (len(args) == 2 and not items):
+            return None
+        acc = args[2] if len(args) == 3 else items.pop(0)
+        for x in items:
+            acc = self.deref(self.call_value(raw[0], [acc, x], [], st), st)
+        return acc
+
+    def ext_functools_partial(self, raw, args, kw, st):
+        if not args:
+            return None
+        return ('partial', args[0], tuple(args[1:]), tuple(kw.items()))
+
+    def _alg(self, t):
+        if t is None:
+            return None
+        if t[0] == 'ext' and t[1].startswith('hashlib.'):
+            return t[1].split('.', 1)[1]
+        ok, c = const_of(t)
+        if ok and isinstance(c, str):
+            return c.lower().replace('-', '')
+        return None
+
+    def _hasher(self, alg, args, kw, st):
+        if len(args) > 1 or set(kw) - {'usedforsecurity'}:
+            return None
+        data = args[0] if args else lift(b'')
+        if not (is_S(data, 'b') or data[0] in ('param', 'ctor', 'enc', 'phi', 'attr', 'sub', 'unknown', 'meth', 'call', 'hash', 'hmac')):
+            return None
+        return self.new_ref(st, ('hasher', alg, data if is_S(data) else S('b', [('t', data)])))
+
+    def ext_hashlib_sha256(self, raw, args, kw, st):
+        return self._hasher('sha256', args, kw, st)
+
+    def ext_hashlib_sha1(self, raw, args, kw, st):
+        return self._hasher('sha1', args, kw, st)
+
+    def ext_hashlib_md5(self, raw, args, kw, st):
+        return self._hasher('md5', args, kw, st)
+
+    def ext_hashlib_new(self, raw, args, kw, st):
+        if not args:
+            return None
+        alg = self._alg(args[0])
+        return self._hasher(alg, args[1:], kw, st) if alg else None
+
+    def _hmac(self, args, kw, st):
+        names = ['key', 'msg', 'digestmod']
+        vals = dict(zip(names, args))
+        for k, v in kw.items():
+            if k in vals or k not in names:
+                return None
+            vals[k] = v
+        alg = self._alg(vals.get('digestmod'))
+        if alg is None or 'key' not in vals:
+            return None
+        msg = vals.get('msg', lift(b''))
+        if msg == NONE:
+            msg = lift(b'')
+        return alg, vals['key'], msg
+
+    def ext_hmac_new(self, raw, args, kw, st):
+        r = self._hmac(args, kw, st)
+        if r is None:
+            return None
+        return self.new_ref(st, ('hmacobj',) + r)
+
+    ext_hmac_HMAC = ext_hmac_new
+
+    def ext_hmac_digest(self, raw, args, kw, st):
+        names = ['key', 'msg', 'digest']
+        vals = dict(zip(names, args))
+        for k, v in kw.items():
+            if k in vals or k not in names:
+                return None
+            vals[k] = v
+        alg = self._alg(vals.get('digest'))
+        if alg is None or len(vals) != 3:
+            return None
+        return ('hmac', alg, vals['key'], vals['msg'])
+
+    def ext_binascii_hexlify(self, raw, args, kw, st):
+        if len(args) == 1 and not kw:
+            return encode_term(S('s', [('t', ('hex', args[0]))]))
+        return None
+
+    def _now(self, zone):
+        return ('now', self.fresh(), zone)
+
+    def ext_datetime_datetime_utcnow(self, raw, args, kw, st):
+        return self._now('utc') if not args and not kw else None
+
+    def ext_datetime_datetime_now(self, raw, args, kw, st):
+        tz = args[0] if len(args) == 1 and not kw else kw.get('tz') if not args and set(kw) == {'tz'} else None
+        if tz in (('ext', 'datetime.timezone.utc'), ('ext', 'datetime.UTC')):
+            return self._now('utc')
+        if not args and not kw:
+            return self._now('local')
+        return None
+
+    def ext_time_gmtime(self, raw, args, kw, st):
+        return self._now('utc') if not args and not kw else None
+
+    def ext_time_strftime(self, raw, args, kw, st):
+        if len(args) == 2 and not kw and const_of(args[0])[0] and args[1][0] == 'now':
+            return self.strftime(args[1], const_of(args[0])[1])
+        return None
+
+    def ext_types_SimpleNamespace(self, raw, args, kw, st):
+        return ('ns', tuple(kw.items())) if not args else None
+
+    # ------------------------------------------------------------------ statements
+    def assign(self, target, v, st):
+        if isinstance(target, ast.Name):
+            st.env[target.id] = v
+        elif isinstance(target, (ast.Tuple, ast.List)):
+            items = self.concrete_items(v, st) if v[0] in ('tuple', 'list', 'ref') else None
+            if items is not None and len(items) == len(target.elts) and not any(isinstance(e, ast.Starred) for e in target.elts):
+                for e, x in zip(target.elts, items):
+                    self.assign(e, x, st)
+            else:
+                d = self.deref(v, st)
+                for i, e in enumerate(target.elts):
+                    self.assign(e.value if isinstance(e, ast.Starred) else e, ('item', d, i), st)
+        elif isinstance(target, ast.Attribute):
+            obj = self.ev(target.value, st)
+            if obj == ('self',):
+                st.selfw[target.attr] = v
+            elif obj[0] == 'ref':
+                st.heap[obj[1]] = self.unknown('attribute store')
+            else:
+                self.trace.append((tuple(self.guards), ('mutated', self.deref(obj, st))))
+        elif isinstance(target, ast.Subscript):
+            holder = target.value
+            obj = self.ev(holder, st)
+            key = self.deref(self.ev(target.slice, st), st) if not isinstance(target.slice, ast.Slice) else self.unknown('slice store')
+            if obj[0] == 'ref' and st.heap.get(obj[1], ('?',))[0] == 'dict':
+                st.heap[obj[1]] = ('dict', tuple(self.dict_set(st.heap[obj[1]][1], key, v, ())))
+            elif obj[0] == 'ref':
+                st.heap[obj[1]] = self.unknown('item store')
+            else:
+                d = self.deref(obj, st)
+                if d[0] not in ('dict', 'phi', 'param', 'k'):
+                    self.trace.append((tuple(self.guards), ('mutated', d)))
+                base = self.spread_entries(d, ())
+                new = self.new_ref(st, ('dict', tuple(self.dict_set(base, key, v, ()))))
+                # the holder now denotes the updated mapping (aliases of a non-container value are not tracked)
+                if isinstance(holder, ast.Name):
+                    st.env[holder.id] = new
+                elif isinstance(holder, ast.Attribute) and self.ev(holder.value, st) == ('self',):
+                    st.selfw[holder.attr] = new
+
+    def assigned_names(self, stmts):
+        names = set()
+        for s in stmts:
+            for n in ast.walk(s):
+                if isinstance(n, ast.Name) and isinstance(n.ctx, (ast.Store, ast.Del)):
+                    names.add(n.id)
+        return names
+
+    def mutated_names(self, stmts):
+        names = set()
+        for s in stmts:
+            for n in ast.walk(s):
+                if isinstance(n, ast.Call) and isinstance(n.func, ast.Attribute) and isinstance(n.func.value, ast.Name):
+                    names.add(n.func.value.id)
+                if isinstance(n, (ast.Subscript, ast.Attribute)) and isinstance(n.ctx, (ast.Store, ast.Del)) and isinstance(n.value, ast.Name):
+                    names.add(n.value.id)
+                if isinstance(n, ast.Call):
+                    for a in list(n.args) + [k.value for k in n.keywords]:
+                        if isinstance(a, ast.Name):
+                            names.add(a.id)
+        return names
+
+    def havoc(self, stmts, st, why):
+        for nm in self.assigned_names(stmts):
+            st.env[nm] = ('unknown', why + ':' + nm, self.fresh())
+        for nm in self.mutated_names(stmts):
+            v = st.env.get(nm)
+            if v is not None and v[0] == 'ref':
+                st.heap[v[1]] = ('unknown', why + ':' + nm, self.fresh())
+        for n in (x for s in stmts for x in ast.walk(s)):
+            if isinstance(n, ast.Attribute) and isinstance(n.ctx, (ast.Store, ast.Del)):
+                try:
+                    if self.ev(n.value, st) == ('self',):
+                        st.selfw[n.attr] = ('unknown', why + ':self.' + n.attr, self.fresh())
+                except Exception:  # noqa: BLE001
+                    pass
+
+    def exec_block(self, stmts, st):
+        """→ (state when control falls through | None, tree of the returns met on the way | None)"""
+        depth = len(self.guards)
+        try:
+            return self._exec_block(stmts, st)
+        finally:
+            del self.guards[depth:]
+
+    def _exec_block(self, stmts, st):
+        R = None
+        for s in stmts:
+            if st is None:
+                break
+            m = getattr(self, 'st_' + type(s).__name__, None)
+            if m is None:
+                self.havoc([s], st, 'statement ' + type(s).__name__)
+                continue
+            st, r = m(s, st)
+            if r is not None:
+                R = subst_hole(R, r) if R is not None else r
+        return st, R
+
+    def st_Expr(self, s, st):
+        if isinstance(s.value, ast.Constant):
+            return st, None
+        if isinstance(s.value, (ast.Yield, ast.YieldFrom)):
+            self.st_yield(s.value, st)
+            return st, None
+        self.ev(s.value, st)
+        return st, None
+
+    def st_yield(self, node, st):
+        v = self.deref(self.ev(node.value, st), st) if node.value is not None else NONE
+        if self.yields:
+            self.yields[-1].append(v)
+        return self.unknown('sent value')
+
+    def ev_Yield(self, node, st):
+        return self.st_yield(node, st)
+
+    ev_YieldFrom = ev_Yield
+
+    def st_Assign(self, s, st):
+        v = self.ev(s.value, st)
+        for t in s.targets:
+            self.assign(t, v, st)
+        return st, None
+
+    def st_AnnAssign(self, s, st):
+        if s.value is not None:
+            self.assign(s.target, self.ev(s.value, st), st)
+        return st, None
+
+    def st_AugAssign(self, s, st):
+        load = ast.copy_location(ast.BinOp(left=self._as_load(s.target), op=s.op, right=s.value), s)
+        cur = self.lookup(s.target.id, st) if isinstance(s.target, ast.Name) else None
+        if cur is not None and cur[0] == 'ref' and st.heap.get(cur[1], ('?',))[0] == 'list' and isinstance(s.op, ast.Add):
+            items = self.concrete_items(self.ev(s.value, st), st)
+            st.heap[cur[1]] = ('list', st.heap[cur[1]][1] + tuple(items)) if items is not None else self.unknown('list +=')
+            return st, None
+        self.assign(s.target, self.ev(load, st), st)
+        return st, None
+
+    def _as_load(self, t):
+        t2 = ast.parse(ast.unparse(t), mode='eval').body
+        return t2
+
+    def st_Pass(self, s, st):
+        return st, None
+
+    st_Import = st_ImportFrom = st_Global = st_Nonlocal = st_Assert = st_Pass
+
+    def st_Delete(self, s, st):
+        for t in s.targets:
+            if isinstance(t, ast.Name):
+                st.env.pop(t.id, None)
+            elif isinstance(t, ast.Attribute) and self.ev(t.value, st) == ('self',):
+                st.selfw[t.attr] = ('unknown', 'deleted', self.fresh())
+            elif isinstance(t, ast.Subscript):
+                obj = self.ev(t.value, st)
+                if obj[0] == 'ref':
+                    st.heap[obj[1]] = self.unknown('del item')
+        return st, None
+
+    def st_FunctionDef(self, s, st):
+        st.env[s.name] = ('func', s, st.env)
+        return st, None
+
+    st_AsyncFunctionDef = st_FunctionDef
+
+    def st_Return(self, s, st):
+        v = self.ev(s.value, st) if s.value is not None else NONE
+        return None, ('ret', v, st)
+
+    def st_Raise(self, s, st):
+        exc = self.deref(self.ev(s.exc, st), st) if s.exc is not None else None
+        return None, ('raise', exc)
+
+    def st_Break(self, s, st):
+        return None, ('break',)
+
+    def st_Continue(self, s, st):
+        return None, ('continue',)
+
+    def st_If(self, s, st):
+        c = self.ev_cond(s.test, st)
+        if c == TRUE:
+            return self.exec_block(s.body, st)
+        if c == FALSE:
+            return self.exec_block(s.orelse, st)
+        sa, sb = st.copy(), st
+        self.guards.append(c)
+        fa, ra = self.exec_block(s.body, sa)
+        self.guards[-1] = neg(c)
+        fb, rb = self.exec_block(s.orelse, sb)
+        self.guards.pop()
+        out = merge_states(c, fa, fb)
+        # what follows an `if` one branch of which does not come back (return / raise / …) runs under the other branch's condition
+        if fa is None and fb is not None:
+            self.guards.append(neg(c))
+        elif fb is None and fa is not None:
+            self.guards.append(c)
+        if ra is None and rb is None:
+            return out, None
+        R = ('rphi', c, ra if ra is not None else HOLE, rb if rb is not None else HOLE)
+        if not self.keep_raises:
+            if fa is None and ra is not None and self._only(ra, 'raise') and rb is None:
+                return out, None                     # `if …: raise` — the normal path goes on
+            if fb is None and rb is not None and self._only(rb, 'raise') and ra is None:
+                return out, None
+        return out, R
+
+    def _only(self, R, kind):
+        if R is None or R == HOLE:
+            return False
+        if R[0] == 'rphi':
+            return self._only(R[2], kind) and self._only(R[3], kind)
+        return R[0] == kind
+
+    def _has_leaf(self, R, kinds):
+        if R is None or R == HOLE:
+            return False
+        if R[0] == 'rphi':
+            return self._has_leaf(R[2], kinds) or self._has_leaf(R[3], kinds)
+        return R[0] in kinds
+
+    def _strip(self, R, kinds):
+        """remove `break` / `continue` leaves (they become fall-through)"""
+        if R is None:
+            return None
+        if R == HOLE:
+            return HOLE
+        if R[0] == 'rphi':
+            a, b = self._strip(R[2], kinds), self._strip(R[3], kinds)
+            if a in (None, HOLE) and b in (None, HOLE):
+                return None
+            return ('rphi', R[1], a if a is not None else HOLE, b if b is not None else HOLE)
+        return None if R[0] in kinds else R
+
+    def loop_flow_free(self, stmts):
+        todo = list(stmts)
+        while todo:
+            n = todo.pop()
+            if isinstance(n, (ast.Break, ast.Continue, ast.Return, ast.Yield, ast.YieldFrom)):
+                return False
+            if isinstance(n, (ast.FunctionDef, ast.AsyncFunctionDef, ast.Lambda, ast.ClassDef)):
+                continue
+            todo += list(ast.iter_child_nodes(n))
+        return True
+
+    def st_For(self, s, st):
+        it = self.deref(self.ev(s.iter, st), st)
+        items = self.concrete_items(it, st) if isinstance(s, ast.For) else None
+        if items is not None and len(items) <= self.MAX_UNROLL and self.loop_flow_free(s.body) and not s.orelse:
+            for x in items:
+                self.assign(s.target, x, st)
+                st, r = self.exec_block(s.body, st)
+                if st is None:
+                    return None, r
+            return st, None
+        if isinstance(s, ast.For) and self.read_loop(s, st):
+            return st, None
+        return self.loop_havoc(s, st, [s.target])
+
+    st_AsyncFor = st_For
+
+    # ---- "read until nothing comes back" loops, in any spelling, are summarised: a hash object updated with every chunk has
+    #      been updated with everything the reads returned
+    def read_loop(self, s, st):
+        var = read = body = None
+        empty = (lift(b''), lift(''))
+        if isinstance(s, ast.For):
+            if not (isinstance(s.target, ast.Name) and isinstance(s.iter, ast.Call) and len(s.iter.args) == 2 and not s.iter.keywords and not s.orelse):
+                return False
+            f = self.ev(s.iter.func, st)
+            if f != ('ext', 'builtins.iter'):
+                return False
+            if self.deref(self.ev(s.iter.args[1], st), st) not in empty:
+                return False
+            mark = len(self.trace)
+            read = self.deref(self.call_value(self.ev(s.iter.args[0], st), [], [], st), st)
+            var, body = s.target.id, list(s.body)
+        else:
+            test, stmts = s.test, list(s.body)
+            if s.orelse:
+                return False
+            mark = len(self.trace)
+            if isinstance(test, ast.Constant) and test.value is True and len(stmts) >= 2 and isinstance(stmts[0], ast.Assign) \
+                    and len(stmts[0].targets) == 1 and isinstance(stmts[0].targets[0], ast.Name) and isinstance(stmts[1], ast.If):
+                var = stmts[0].targets[0].id
+                read = self.deref(self.ev(stmts[0].value, st), st)
+                brk = stmts[1]
+                probe = St(dict(st.env), st.heap, st.selfw)
+                probe.env[var] = ('chunk', 0)
+                c = self.ev_cond(brk.test, probe)
+                only_break = lambda b: len(b) == 1 and isinstance(b[0], ast.Break)  # noqa: E731
+                if only_break(brk.body) and c in (neg(('truthy', ('chunk', 0))), ('eq',) + tuple(sorted((('chunk', 0), lift(b'')), key=repr))):
+                    body = list(brk.orelse) + stmts[2:]
+                elif only_break(brk.orelse) and not stmts[2:] and c in (('truthy', ('chunk', 0)), neg(('eq',) + tuple(sorted((('chunk', 0), lift(b'')), key=repr)))):
+                    body = list(brk.body)
+                else:
+                    return False
+            else:
+                ne = [n for n in ast.walk(test) if isinstance(n, ast.NamedExpr)]
+                if len(ne) != 1 or not isinstance(ne[0].target, ast.Name):
+                    return False
+                var = ne[0].target.id
+                read = self.deref(self.ev(ne[0].value, st), st)
+                probe = St(dict(st.env), st.heap, st.selfw)
+                holder = ast.parse(ast.unparse(test), mode='eval').body
+                for n in ast.walk(holder):
+                    for fld, val in ast.iter_fields(n):
+                        if isinstance(val, ast.NamedExpr):
+                            setattr(n, fld, ast.Name(id='__chunk__', ctx=ast.Load()))
+                        elif isinstance(val, list):
+                            for i, x in enumerate(val):
+                                if isinstance(x, ast.NamedExpr):
+                                    val[i] = ast.Name(id='__chunk__', ctx=ast.Load())
+                if isinstance(holder, ast.NamedExpr):
+                    holder = ast.Name(id='__chunk__', ctx=ast.Load())
+                probe.env['__chunk__'] = ('chunk', 0)
+                c = self.ev_cond(holder, probe)
+                if c not in (('truthy', ('chunk', 0)), neg(('eq',) + tuple(sorted((('chunk', 0), lift(b'')), key=repr)))):
+                    return False
+                body = stmts
+        if read is None or read[0] != 'meth' or read[2] != 'read' or read[4] or len(read[3]) > 1 or not self.loop_flow_free(body):
+            del self.trace[mark:]
+            return False
+        chunk = ('chunk', self.fresh())
+        before = dict(st.heap)
+        inner = st.copy()
+        inner.env[var] = chunk
+        self.guards.append(('loop', chunk[1]))
+        fall, r = self.exec_block(body, inner)
+        self.guards.pop()
+        if fall is None or r is not None:
+            del self.trace[mark:]
+            return False
+        everything = ('readall', read[1], read[3])
+        for nm in self.assigned_names(body) | {var}:
+            st.env[nm] = ('unknown', 'loop:' + nm, self.fresh())
+        for k, v in fall.heap.items():
+            old = before.get(k)
+            if old == v:
+                continue
+            if old is not None and old[0] == 'hasher' and v[0] == 'hasher' and is_S(v[2]) and v[2][2][:len(old[2][2])] == old[2][2] \
+                    and v[2][2][len(old[2][2]):] == (('t', chunk),):
+                st.heap[k] = ('hasher', v[1], S('b', old[2][2] + (('t', everything),)))
+            elif old is None:
+                st.heap[k] = v
+            else:
+                st.heap[k] = ('unknown', 'changed in a read loop', self.fresh())
+        for k, v in fall.selfw.items():
+            if st.selfw.get(k) != v:
+                st.selfw[k] = ('unknown', 'loop:self.' + k, self.fresh())
+        return True
+
+    def st_While(self, s, st):
+        c = self.ev_cond(s.test, st)
+        if c == FALSE:
+            return self.exec_block(s.orelse, st)
+        if self.read_loop(s, st):
+            return st, None
+        return self.loop_havoc(s, st, [])
+
+    def loop_havoc(self, s, st, targets):
+        body = list(s.body) + list(s.orelse)
+        why = 'loop'
+        pseudo = [ast.Assign(targets=[t], value=ast.Constant(None)) for t in targets]
+        for p in pseudo:
+            ast.fix_missing_locations(p)
+        self.havoc(body + pseudo, st, why)
+        if isinstance(s, ast.While):
+            for n in ast.walk(s.test):
+                if isinstance(n, ast.NamedExpr):
+                    self.havoc([ast.fix_missing_locations(ast.Assign(targets=[ast.Name(id=n.target.id, ctx=ast.Store())], value=ast.Constant(None)))], st, why)
+        lc = ('loop', self.fresh())
+        self.guards.append(lc)
+        inner = st.copy()
+        if isinstance(s, ast.While):
+            self.ev_cond(s.test, inner)
+        fall, r = self.exec_block(body, inner)
+        self.guards.pop()
+        self.havoc(body + pseudo, st, why)
+        if fall is not None:
+            # containers created before the loop and touched in it are unknown afterwards; keep what the body allocated
+            for k, v in fall.heap.items():
+                if k not in st.heap:
+                    st.heap[k] = v
+        r = self._strip(r, ('break', 'continue', 'raise'))
+        if r is None:
+            return st, None
+        return st, ('rphi', lc, r, HOLE)
+
+    def st_With(self, s, st):
+        for item in s.items:
+            v = self.ev(item.context_expr, st)
+            if item.optional_vars is not None:
+                self.assign(item.optional_vars, v[1] if v[0] == 'cm' else ('enter', self.deref(v, st)), st)
+        return self.exec_block(s.body, st)
+
+    st_AsyncWith = st_With
+
+    def st_Try(self, s, st):
+        pre = st.copy()
+        fall, R = self.exec_block(s.body, st)
+        if fall is not None and s.orelse:
+            fall, r2 = self.exec_block(s.orelse, fall)
+            if r2 is not None:
+                R = subst_hole(R, r2) if R is not None else r2
+        for h in s.handlers:
+            hs = pre.copy()
+            # what the body assigned before the exception is not known
+            self.havoc(s.body, hs, 'try body')
+            htype = self.deref(self.ev(h.type, hs), hs) if h.type is not None else NONE
+            ec = ('exc', self.fresh(), htype)
+            if h.name:
+                hs.env[h.name] = ('exception', ec[1], htype)
+            self.guards.append(ec)
+            saved_trace = self.trace
+            self.trace = [] if not self.keep_raises else saved_trace
+            try:
+                hf, hr = self.exec_block(h.body, hs)
+            finally:
+                self.trace = saved_trace
+                self.guards.pop()
+            if not self.keep_raises:
+                hr = self._strip(hr, ('raise',)) if hr is not None else None
+            if hf is None and hr is None:
+                continue
+            if hf is not None:
+                fall = merge_states(ec, hf, fall)
+            if hr is not None or R is not None:
+                R = ('rphi', ec, hr if hr is not None else HOLE, R if R is not None else HOLE)
+        if s.finalbody:
+            if fall is not None:
+                fall, r3 = self.exec_block(s.finalbody, fall)
+                if r3 is not None:
+                    R = subst_hole(R, r3) if R is not None else r3
+            else:
+                tmp = pre.copy()
+                self.havoc(s.body, tmp, 'try body')
+                self.exec_block(s.finalbody, tmp)
+        return fall, R
+
+    st_TryStar = st_Try
+
+    def leaves(self, R, conds=()):
+        """outcome tree → [(conditions on the path, 'ret' | 'raise', value)]"""
+        if R is None or R == HOLE:
+            return []
+        if R[0] == 'rphi':
+            return self.leaves(R[2], conds + (R[1],)) + self.leaves(R[3], conds + (neg(R[1]),))
+        if R[0] == 'ret':
+            return [(conds, 'ret', self.deref(R[1], R[2]))]
+        if R[0] == 'raise':
+            return [(conds, 'raise', R[1] if len(R) > 1 else None)]
+        return []
+
+    def outcomes(self, f, args):
+        """all ways a call of the function value `f` can end → ([(conditions, 'ret' | 'raise', value)], trace of external calls)"""
+        if f[0] == 'lambda':
+            self.trace, self.guards = [], []
+            return [((), 'ret', self.deref(self.call_lambda(f, args, [], St()), St()))], self.trace
+        if f[0] not in ('func', 'bound'):
+            raise Unrec('not a function defined in this module')
+        fn = f[1]
+        st = St()
+        env = self.bind(fn.args, args, [], St({'__closure__': f[2] if f[0] == 'func' else None}, st.heap, st.selfw), ('self',) if f[0] == 'bound' else None)
+        if env is None:
+            raise Unrec('arguments do not fit ' + fn.name)
+        env['__closure__'] = f[2] if f[0] == 'func' else None
+        st.env = env
+        saved = self.keep_raises
+        self.keep_raises, self.raised, self.trace, self.guards = True, [], [], []
+        self.stack = [fn]
+        self.yields = [[]]
+        try:
+            fall, R = self.exec_block(fn.body, st)
+        finally:
+            self.keep_raises = saved
+            self.stack = []
+        R = subst_hole(R, ('ret', NONE, fall)) if fall is not None else R
+        out = self.leaves(R) + [(c, 'raise', e) for c, e in self.raised]
+        return out, self.trace
+
+    # ------------------------------------------------------------------ entry point
+    def run_method(self, name, param_term=lambda n: ('param', n)):
+        """evaluate a method of the class on symbolic arguments → (return value, final state, trace of external calls)"""
+        fn = self.methods[name]
+        st = St()
+        a = fn.args
+        params = a.posonlyargs + a.args + a.kwonlyargs
+        defaults = {}
+        pos = a.posonlyargs + a.args
+        for p, d in zip(pos[len(pos) - len(a.defaults):], a.defaults):
+            defaults[p.arg] = d
+        for p, d in zip(a.kwonlyargs, a.kw_defaults):
+            if d is not None:
+                defaults[p.arg] = d
+        for i, p in enumerate(params):
+            st.env[p.arg] = ('self',) if i == 0 else param_term(p.arg)
+        if a.vararg:
+            st.env[a.vararg.arg] = ('unknown', '*args', 0)
+        if a.kwarg:
+            st.env[a.kwarg.arg] = ('unknown', '**kwargs', 0)
+        self.trace, self.guards = [], []
+        self.stack = [fn]
+        self.yields = [[]]
+        try:
+            fall, R = self.exec_block(fn.body, st)
+        finally:
+            self.stack = []
+        R = subst_hole(R, ('ret', NONE, fall)) if fall is not None else R
+        fin = self.fold(R)
+        trace = self.trace
+        return (fin[0] if fin else None), (fin[1] if fin else None), trace
+
+
+# =====================================================================================================================
+#  Part B — what reaches the HTTP client: requests as values
+# =====================================================================================================================
+NL = ('c', '\n')
+CLIENT_CTORS = ('httpx.AsyncClient', 'httpx.Client')
+HTTP_VERBS = ('get', 'put', 'post', 'head', 'delete', 'patch', 'options')
+CLIENT_NEUTRAL_OPTIONS = ('timeout', 'event_hooks', 'limits', 'http1', 'http2', 'verify', 'cert', 'trust_env', 'max_redirects', 'follow_redirects',
+                          'transport', 'mounts', 'proxy', 'proxies', 'default_encoding')
+BACKEND_API = ('exists', 'upload', 'upload_stream', 'download', 'download_stream', 'list_files', 'delete')
+
+
+def is_client(t):
+    return isinstance(t, tuple) and len(t) > 1 and t[0] == 'call' and t[1] in CLIENT_CTORS
+
+
+def ctoks(s):
+    return [('c', ch) for ch in s]
+
+
+def const_str(toks):
+    if all(x[0] == 'c' for x in toks):
+        return ''.join(x[1] for x in toks)
+    return None
+
+
+def split_toks(toks, sep):
+    out, cur = [], []
+    for x in toks:
+        if x == sep:
+            out.append(cur)
+            cur = []
+        else:
+            cur.append(x)
+    out.append(cur)
+    return out
+
+
+def join_toks(parts, sep):
+    out = []
+    for i, p in enumerate(parts):
+        if i:
+            out += list(sep)
+        out += list(p)
+    return out
+
+
+def dec_toks(t):
+    """bytes term that is the UTF-8 encoding of a string → the string's tokens"""
+    if not is_S(t, 'b'):
+        if isinstance(t, tuple) and t and t[0] == 'enc':
+            return toks_of(t[1])
+        raise Unrec('not an encoded string')
+    out = []
+    for x in t[2]:
+        if x[0] == 'c':
+            if ord(x[1]) >= 128:
+                raise Unrec('non-ASCII constant')
+            out.append(x)
+        elif x[1][0] == 'enc':
+            out += toks_of(x[1][1])
+        else:
+            raise Unrec('bytes atom inside an encoded string')
+    return out
+
+
+def ts_now(toks, fmt):
+    """tokens == strftime(fmt) of ONE clock reading → that reading"""
+    now = None
+    i = 0
+    for x in toks:
+        if i >= len(fmt):
+            return None
+        if fmt[i] == '%':
+            if x[0] != 't' or x[1][0] != 'tf' or x[1][2] != fmt[i + 1]:
+                return None
+            if now is not None and x[1][1] != now:
+                return None
+            now = x[1][1]
+            i += 2
+        else:
+            if x != ('c', fmt[i]):
+                return None
+            i += 1
+    return now if i == len(fmt) else None
+
+
+AMZ_TS = '%Y%m%dT%H%M%SZ'
+AMZ_DATE = '%Y%m%d'
+
+
+class Req:
+    """one request handed to the HTTP client"""
+
+    def __init__(self, where, method, url, headers, kwargs, send_kwargs, guards):
+        self.where, self.method, self.url, self.headers, self.kwargs, self.send_kwargs, self.guards = where, method, url, headers, kwargs, send_kwargs, guards
+
+
+def requests_of(sym, name):
+    """evaluate the public method `name` on symbolic arguments → the requests it hands to the HTTP client (in order)"""
+    val, st, trace = sym.run_method(name)
+    reqs, built = [], []
+    def base_of(x):
+        while isinstance(x, tuple) and x and x[0] in ('attr', 'sub'):
+            x = x[1]
+        return x
+    for g, t in trace:
+        if t[0] == 'mutated' or (t[0] == 'meth' and not is_client(t[1])):
+            # a request object that is changed (or handed its own methods) between build_request and send is not what was signed
+            if any(b[0] == base_of(t[1]) for b in built):
+                raise Unrec(f'{name}: the request is modified after it was built')
+            continue
+        if t[0] == 'meth' and is_client(t[1]):
+            extra = sorted(k for k, _ in t[1][3] if k not in CLIENT_NEUTRAL_OPTIONS)
+            if extra:
+                raise Unrec(f'{name}: the HTTP client is constructed with options that change what is sent: {extra}')
+        if t[0] == 'opaque-decorator':
+            raise Unrec(f'{name}: call through a decorator that is not understood: {t[1]} {t[2]}')
+        if t[0] == 'meth' and is_client(t[1]):
+            m, args, kw = t[2], list(t[3]), dict(t[4])
+            if m == 'build_request':
+                built.append((t, args, kw))
+            elif m == 'send':
+                hit = [b for b in built if args and b[0] == args[0]]
+                if not hit:
+                    raise Unrec(f'{name}: send() of something that is not a request built here')
+                _, a, k = hit[-1]
+                reqs.append(_mk_req(name, a, k, dict(kw, **{'#rest': tuple(args[1:])}) if len(args) > 1 else kw, g))
+            elif m in ('request', 'stream'):
+                reqs.append(_mk_req(name, args, kw, {}, g))
+            elif m in HTTP_VERBS:
+                reqs.append(_mk_req(name, [lift(m.upper())] + args, kw, {}, g))
+            elif m in ('aclose', 'close', '__aenter__', '__aexit__'):
+                pass
+            else:
+                raise Unrec(f'{name}: use of the HTTP client that is not understood: .{m}()')
+        elif t[0] == 'call' and t[2] == ('unknown-args',):
+            f = t[1]
+            if isinstance(f, tuple) and f[0] == 'attr' and is_client(f[1]):
+                raise Unrec(f'{name}: arguments of {f[2]}() cannot be resolved')
+        elif t[0] == 'call' and isinstance(t[1], str) and t[1].startswith('httpx.') and t[1].split('.')[-1] in HTTP_VERBS + ('request', 'stream'):
+            raise Unrec(f'{name}: request outside the client object: {t[1]}')
+    return reqs
+
+
+def _mk_req(where, args, kw, send_kw, guards):
+    kw = dict(kw)
+    names = ['method', 'url']
+    vals = dict(zip(names, args))
+    if len(args) > 2:
+        raise Unrec(f'{where}: positional arguments of the request beyond (method, url)')
+    for n in names:
+        if n in kw:
+            if n in vals:
+                raise Unrec('duplicate argument')
+            vals[n] = kw.pop(n)
+    if set(vals) != set(names):
+        raise Unrec(f'{where}: method / url of the request not found')
+    headers = kw.pop('headers', NONE)
+    return Req(where, vals['method'], vals['url'], headers, kw, send_kw, guards)
+
+
+def _fmt_items(fmt):
+    out, i = [], 0
+    while i < len(fmt):
+        if fmt[i] == '%':
+            out.append(fmt[i:i + 2])
+            i += 2
+        else:
+            out.append(fmt[i])
+            i += 1
+    return out
+
+
+# =====================================================================================================================
+#  Part C — effects on ONE object (a stream) along normal and exceptional paths
+#
+#  Abstract state of the tracked stream: where its position is ('entry' = untouched since the analysed function was entered,
+#  ('at', k) = after `seek(k)`, 'moved' = anywhere), whether `truncate(n)` has been called, whether some file was unlinked.
+#  Statements are interpreted over SETS of such states; every call that is not known to be harmless may raise; an exception
+#  travels outward through `except` / `finally` clauses (helper calls are followed, the stream is followed into their
+#  parameters), and what leaves the analysed function is a set of (state, went-through-a-handler) pairs.
+# =====================================================================================================================
+BENIGN_CALLS = ('len', 'str', 'repr', 'int', 'bool', 'isinstance', 'print', 'id', 'type', 'min', 'max', 'float', 'format', 'hash', 'getattr', 'hasattr')
+BENIGN_MODULE_CALLS = ('time.monotonic', 'time.time', 'time.perf_counter', 'time.monotonic_ns', 'time.perf_counter_ns', 'time.time_ns',
+                       'logging.getLogger', 'contextlib.suppress')
+CATCH_ALL = ('BaseException', 'Exception')
+
+
+class FState(tuple):
+    """(pos, truncated, unlinked, flags) — flags: local names that hold a known True / False (success flags tested in `finally`)"""
+    __slots__ = ()
+
+    def __new__(cls, pos='entry', truncated=False, unlinked=False, flags=()):
+        return tuple.__new__(cls, (pos, truncated, unlinked, tuple(sorted(flags))))
+
+    pos = property(lambda s: s[0])
+    truncated = property(lambda s: s[1])
+    unlinked = property(lambda s: s[2])
+    flags = property(lambda s: s[3])
+
+    def set(self, **kw):
+        d = dict(pos=self[0], truncated=self[1], unlinked=self[2], flags=self[3])
+        d.update(kw)
+        return FState(**d)
+
+    def flag(self, name, value):
+        """value None: forget"""
+        rest = tuple((n, v) for n, v in self[3] if n != name)
+        return self.set(flags=rest + (((name, value),) if value is not None else ()))
+
+
+class Out:
+    __slots__ = ('fall', 'ret', 'brk', 'cont', 'exc')
+
+    def __init__(self, fall=()):
+        self.fall, self.ret, self.brk, self.cont, self.exc = set(fall), set(), set(), set(), set()
+
+    def absorb(self, o, fall=True):
+        if fall:
+            self.fall |= o.fall
+        self.ret |= o.ret
+        self.brk |= o.brk
+        self.cont |= o.cont
+        self.exc |= o.exc
+
+
+class Flow:
+    MAX_DEPTH = 6
+
+    def __init__(self, mod, cls=None, exc_covers=None):
+        self.mod = mod
+        self.cls = mod.classes.get(cls) if isinstance(cls, str) else cls
+        self.methods = {}
+        if self.cls is not None:
+            for st in self.cls.body:
+                if isinstance(st, (ast.FunctionDef, ast.AsyncFunctionDef)):
+                    self.methods[st.name] = st
+        self.exc_covers = exc_covers      # None: an exception of unknown class; else f(handler.type) → True / False / 'some'
+        self.reset()
+
+    @property
+    def consumes(self):
+        return self.consume_nodes
+
+    def reset(self):
+        self.consume_nodes = []   # (function node, AST node, state before) of every use that reads / writes / hands on the stream
+        self.entries = {}         # function node → set of states with which it was entered (only when the stream is passed in)
+        self.entry_tracked = {}   # function node → names of the stream in it
+        self.seeks_at_entry = {}  # function node → number of seek() calls seen before it was first entered
+        self.consumes_at_entry = {}
+        self.seeks = 0
+        self.truncates = []       # (number of arguments, state before)
+        self.swallowed = False
+        self.partial_cover = None
+        self.stack = []
+        self.notes = []
+
+    # ------------------------------------------------------------------ resolution of calls
+    def dotted(self, node):
+        parts = []
+        while isinstance(node, ast.Attribute):
+            parts.append(node.attr)
+            node = node.value
+        if isinstance(node, ast.Name):
+            base = self.mod.imports.get(node.id)
+            if base is None:
+                return None
+            return '.'.join([base] + parts[::-1])
+        return None
+
+    def resolve_call(self, call, ctx):
+        """→ (function node, passes `self`?) of a call to a method of the class / a module-level or nested function"""
+        f = call.func
+        if isinstance(f, ast.Attribute) and isinstance(f.value, ast.Name) and f.value.id == ctx['self'] and f.attr in self.methods:
+            return self.methods[f.attr], True
+        if isinstance(f, ast.Name):
+            if f.id in ctx['nested']:
+                return ctx['nested'][f.id], False
+            if f.id in ctx['tracked'] or f.id in ctx['locals']:
+                return None, False
+            if f.id in self.mod.funcs:
+                return self.mod.funcs[f.id], False
+        return None, False
+
+    def is_benign(self, call, ctx):
+        f = call.func
+        if isinstance(f, ast.Name) and f.id in BENIGN_CALLS and f.id not in ctx['locals']:
+            return True
+        if isinstance(f, ast.Attribute) and f.attr in LOGGER_METHODS:
+            v = f.value
+            # a logger: module-level `x = logging.getLogger(…)`, `logging.<level>(…)`, or an attribute named like one
+            if isinstance(v, ast.Name):
+                vals = self.mod.assigns.get(v.id) or []
+                if len(vals) == 1 and isinstance(vals[0], ast.Call) and self.dotted(vals[0].func) == 'logging.getLogger':
+                    return True
+                if self.mod.imports.get(v.id) == 'logging':
+                    return True
+            if isinstance(v, ast.Attribute) and v.attr in ('logger', '_logger', 'log'):
+                return True
+        d = self.dotted(f)
+        if d in BENIGN_MODULE_CALLS:
+            return True
+        return False
+
+    # ------------------------------------------------------------------ expressions → ordered events
+    def events(self, node, ctx, out):
+        """post-order walk of an expression; appends events to `out`"""
+        if node is None:
+            return
+        if isinstance(node, (ast.Lambda, ast.GeneratorExp, ast.ListComp, ast.SetComp, ast.DictComp)):
+            if any(isinstance(n, ast.Name) and n.id in ctx['tracked'] for n in ast.walk(node)):
+                out.append(('consume', node))
+            elif any(isinstance(n, ast.Call) for n in ast.walk(node)) and not isinstance(node, ast.Lambda):
+                out.append(('call', node))
+            return
+        if isinstance(node, ast.Call):
+            f = node.func
+            if isinstance(f, ast.Attribute) and isinstance(f.value, ast.Name) and f.value.id in ctx['tracked']:
+                for a in list(node.args) + [k.value for k in node.keywords]:
+                    self.events(a, ctx, out)
+                if f.attr == 'seek':
+                    out.append(('seek', node))
+                elif f.attr == 'truncate':
+                    out.append(('truncate', node))
+                elif f.attr in ('tell', 'seekable', 'readable', 'writable', 'fileno', 'isatty'):
+                    pass
+                else:
+                    out.append(('consume', node))
+                return
+            if isinstance(f, ast.Attribute):
+                self.events(f.value, ctx, out)
+            elif not isinstance(f, ast.Name):
+                self.events(f, ctx, out)
+            passed = {}
+            fn, with_self = self.resolve_call(node, ctx)
+            for i, a in enumerate(node.args):
+                if isinstance(a, ast.Name) and a.id in ctx['tracked']:
+                    passed[i] = a.id
+                elif isinstance(a, ast.Starred) and any(isinstance(n, ast.Name) and n.id in ctx['tracked'] for n in ast.walk(a)):
+                    passed['*'] = True
+                else:
+                    self.events(a, ctx, out)
+            for k in node.keywords:
+                if isinstance(k.value, ast.Name) and k.value.id in ctx['tracked']:
+                    passed[k.arg if k.arg is not None else '**'] = k.value.id
+                else:
+                    self.events(k.value, ctx, out)
+            if fn is not None and '*' not in passed and '**' not in passed:
+                out.append(('usercall', node, fn, with_self, passed))
+            elif passed:
+                out.append(('consume', node))
+            else:
+                name = f.attr if isinstance(f, ast.Attribute) else f.id if isinstance(f, ast.Name) else ''
+                d = self.dotted(f)
+                if name == 'unlink' or d in ('os.unlink', 'os.remove'):
+                    out.append(('unlink', node))
+                elif d == 'contextlib.suppress' or (isinstance(f, ast.Name) and self.mod.imports.get(f.id) == 'contextlib.suppress'):
+                    out.append(('suppress', node))
+                elif not self.is_benign(node, ctx):
+                    out.append(('call', node))
+            return
+        if isinstance(node, ast.Name):
+            if node.id in ctx['tracked'] and isinstance(node.ctx, ast.Load):
+                out.append(('consume', node))        # the stream escapes into something we do not follow
+            return
+        if isinstance(node, ast.Attribute) and isinstance(node.value, ast.Name) and node.value.id in ctx['tracked']:
+            return                                   # reading an attribute of the stream (name, mode …)
+        for ch in ast.iter_child_nodes(node):
+            if isinstance(ch, ast.expr):
+                self.events(ch, ctx, out)
+            elif isinstance(ch, (ast.keyword, ast.comprehension, ast.FormattedValue)):
+                for g in ast.iter_child_nodes(ch):
+                    if isinstance(g, ast.expr):
+                        self.events(g, ctx, out)
+
+    def int_value(self, node, ctx):
+        """an integer that is known here: a literal, a module-level constant, a parameter bound to one by the caller"""
+        try:
+            v = ast.literal_eval(node)
+        except Exception:  # noqa: BLE001
+            v = None
+            if isinstance(node, ast.Name):
+                stored = [n for n in ast.walk(ctx['fn']) if isinstance(n, ast.Name) and n.id == node.id and isinstance(n.ctx, ast.Store)] if ctx.get('fn') is not None else []
+                if node.id in ctx.get('consts', {}) and not stored:
+                    v = ctx['consts'][node.id]
+                elif node.id not in ctx.get('locals', ()):
+                    v = self.const_int(node)
+        return v if isinstance(v, int) and not isinstance(v, bool) else None
+
+    def seek_target(self, call, ctx=None):
+        """`seek(k)` / `seek(k, 0)` / `seek(k, os.SEEK_SET)` with a literal k ≥ 0 → k, else None"""
+        if call.keywords or not 1 <= len(call.args) <= 2:
+            return None
+        k = self.int_value(call.args[0], ctx or {})
+        if k is None or k < 0:
+            return None
+        if len(call.args) == 2:
+            w = call.args[1]
+            try:
+                if ast.literal_eval(w) != 0:
+                    return None
+            except Exception:  # noqa: BLE001
+                if not (self.dotted(w) in ('os.SEEK_SET', 'io.SEEK_SET') or self.int_value(w, ctx or {}) == 0):
+                    return None
+        return k
+
+    def const_int(self, node):
+        """a module-level integer constant (hoisted value)"""
+        if isinstance(node, ast.Name):
+            vals = self.mod.assigns.get(node.id) or []
+            if len(vals) == 1 and vals[0] is not None:
+                try:
+                    v = ast.literal_eval(vals[0])
+                    if isinstance(v, int) and not isinstance(v, bool):
+                        return v
+                except Exception:  # noqa: BLE001
+                    return None
+        return None
+
+    def run_expr(self, node, states, ctx):
+        """→ Out (fall = states after the expression, exc = states in which it may raise)"""
+        evs = []
+        self.events(node, ctx, evs)
+        o = Out(states)
+        for ev in evs:
+            kind = ev[0]
+            nxt = set()
+            for st in o.fall:
+                if kind == 'seek':
+                    self.seeks += 1
+                    k = self.seek_target(ev[1], ctx)
+                    nxt.add(st.set(pos=('at', k) if k is not None else 'moved'))
+                elif kind == 'truncate':
+                    self.truncates.append((len(ev[1].args) + len(ev[1].keywords), st))
+                    if not ctx['quiet']:
+                        o.exc.add((st, False))
+                    nxt.add(st.set(truncated=len(ev[1].args) + len(ev[1].keywords) == 1))
+                elif kind == 'consume':
+                    self.consume_nodes.append((ctx['fn'], ev[1], st))
+                    st2 = st.set(pos='moved')
+                    if not ctx['quiet']:
+                        o.exc.add((st2, False))
+                        o.exc.add((st, False))
+                    nxt.add(st2)
+                elif kind == 'unlink':
+                    nxt.add(st.set(unlinked=True))
+                elif kind == 'suppress':
+                    self.swallowed = True
+                    nxt.add(st)
+                elif kind == 'call':
+                    if not ctx['quiet']:
+                        o.exc.add((st, False))
+                    nxt.add(st)
+                elif kind == 'usercall':
+                    r = self.call(ev[2], ev[3], ev[4], ev[1], st, ctx)
+                    nxt |= r.fall
+                    o.exc |= r.exc
+            o.fall = nxt
+        return o
+
+    def bind_consts(self, fn, node, off, ctx):
+        """integer arguments that are literals (or defaults) are known inside the helper: `def rewind(s, to=0): s.seek(to)`"""
+        a = fn.args
+        pos = list(a.posonlyargs) + list(a.args)
+        consts = {}
+        allp = pos + list(a.kwonlyargs)
+        defaults = dict(zip([p.arg for p in pos[len(pos) - len(a.defaults):]], a.defaults)) if a.defaults else {}
+        defaults.update({p.arg: dflt for p, dflt in zip(a.kwonlyargs, a.kw_defaults) if dflt is not None})
+        given = {}
+        for i, arg in enumerate(node.args):
+            if not isinstance(arg, ast.Starred) and i + off < len(pos):
+                given[pos[i + off].arg] = arg
+        for k in node.keywords:
+            if k.arg is not None:
+                given[k.arg] = k.value
+        for p in allp:
+            src = given.get(p.arg, defaults.get(p.arg))
+            if src is not None:
+                v = self.int_value(src, ctx) if p.arg in given else self.int_value(src, {})
+                if v is not None:
+                    consts[p.arg] = v
+        return consts
+
+    def call(self, fn, with_self, passed, node, st, ctx):
+        o = Out()
+        if fn in self.stack or len(self.stack) >= self.MAX_DEPTH:
+            # not followed: as an unknown call
+            if passed:
+                self.consume_nodes.append((ctx['fn'], node, st))
+                st = st.set(pos='moved')
+            o.fall.add(st)
+            if not ctx['quiet']:
+                o.exc.add((st, False))
+            return o
+        a = fn.args
+        pos = list(a.posonlyargs) + list(a.args)
+        static = any((isinstance(d, ast.Name) and d.id == 'staticmethod') for d in fn.decorator_list)
+        off = 1 if with_self and not static else 0
+        tracked = set()
+        for k, v in passed.items():
+            if isinstance(k, int):
+                if k + off < len(pos):
+                    tracked.add(pos[k + off].arg)
+                else:
+                    tracked.add('*')
+            elif any(p.arg == k for p in pos + list(a.kwonlyargs)):
+                tracked.add(k)
+            else:
+                tracked.add('*')
+        if fn in ctx['nested'].values():
+            # a nested function sees the stream of the enclosing function through its closure
+            tracked |= {n for n in ctx['tracked'] if n not in {p.arg for p in pos + list(a.kwonlyargs)}}
+        if '*' in tracked:
+            self.consume_nodes.append((ctx['fn'], node, st))
+            st = st.set(pos='moved')
+            o.fall.add(st)
+            if not ctx['quiet']:
+                o.exc.add((st, False))
+            return o
+        consts = self.bind_consts(fn, node, off, ctx)
+        if tracked:
+            if fn not in self.entries:
+                self.entry_tracked[fn] = set(tracked)
+                self.seeks_at_entry[fn] = self.seeks
+                self.consumes_at_entry[fn] = len(self.consume_nodes)
+            self.entries.setdefault(fn, set()).add(st)
+        r = self.function(fn, tracked, {st.set(flags=())}, quiet=ctx['quiet'], consts=consts)
+        o.fall = {x.set(flags=st.flags) for x in r.fall | r.ret}        # the helper's own flags are its own
+        o.exc = {(x.set(flags=st.flags), h) for x, h in r.exc}
+        return o
+
+    # ------------------------------------------------------------------ statements
+    def function(self, fn, tracked, states, quiet=False, consts=None):
+        a = fn.args
+        pos = list(a.posonlyargs) + list(a.args)
+        ctx = {'fn': fn, 'tracked': set(tracked), 'self': pos[0].arg if pos and fn.name in self.methods and self.methods[fn.name] is fn else None,
+               'nested': {}, 'quiet': quiet, 'consts': dict(consts or {}),
+               'locals': {n.id for n in ast.walk(fn) if isinstance(n, ast.Name) and isinstance(n.ctx, ast.Store)} | {p.arg for p in pos + list(a.kwonlyargs)}}
+        self.stack.append(fn)
+        try:
+            o = self.block(fn.body, states, ctx)
+        finally:
+            self.stack.pop()
+        return o
+
+    def block(self, stmts, states, ctx):
+        o = Out(states)
+        for s in stmts:
+            if not o.fall:
+                break
+            r = self.stmt(s, o.fall, ctx)
+            o.fall = set()
+            o.absorb(r)
+        return o
+
+    def stmt(self, s, states, ctx):
+        if isinstance(s, (ast.FunctionDef, ast.AsyncFunctionDef)):
+            ctx['nested'][s.name] = s
+            return Out(states)
+        if isinstance(s, (ast.Pass, ast.Import, ast.ImportFrom, ast.Global, ast.Nonlocal, ast.ClassDef)):
+            return Out(states)
+        yb = ctx.get('yield_body')
+        if yb is not None and isinstance(s, (ast.Expr, ast.Assign)) and s.value is yb[2]:
+            body, outer, _ = yb
+            r = self.block(body, states, dict(outer, quiet=ctx['quiet'] and outer['quiet']))
+            # `return` / `break` inside the with-body leave the helper's `try` as well; keep them as they are
+            return r
+        if isinstance(s, ast.Expr):
+            return self.run_expr(s.value, states, ctx)
+        if isinstance(s, (ast.Assign, ast.AnnAssign, ast.AugAssign)):
+            value = s.value
+            targets = s.targets if isinstance(s, ast.Assign) else [s.target]
+            if isinstance(value, ast.Name) and value.id in ctx['tracked'] and not isinstance(s, ast.AugAssign):
+                for t in targets:                      # an alias: `x = stream`
+                    if isinstance(t, ast.Name):
+                        ctx['tracked'].add(t.id)
+                return Out(states)
+            if isinstance(s, ast.Assign) and len(targets) == 1 and isinstance(targets[0], ast.Name) and isinstance(value, ast.Constant) and isinstance(value.value, bool):
+                return Out({st.flag(targets[0].id, value.value) for st in states})
+            o = self.run_expr(value, states, ctx) if value is not None else Out(states)
+            for t in targets:
+                for n in ast.walk(t):
+                    if isinstance(n, ast.Name) and n.id in ctx['tracked'] and isinstance(n.ctx, ast.Store):
+                        ctx['tracked'].discard(n.id)
+                    if isinstance(n, ast.Name) and isinstance(n.ctx, ast.Store):
+                        o.fall = {st.flag(n.id, None) for st in o.fall}
+            return o
+        if isinstance(s, ast.Return):
+            o = self.run_expr(s.value, states, ctx) if s.value is not None else Out(states)
+            o.ret |= o.fall
+            o.fall = set()
+            return o
+        if isinstance(s, ast.Raise):
+            o = Out()
+            pre = self.run_expr(s.exc, states, dict(ctx, quiet=True)) if s.exc is not None else Out(states)
+            o.exc |= {(st, False) for st in pre.fall}
+            return o
+        if isinstance(s, ast.Assert):
+            return Out(states)
+        if isinstance(s, ast.Delete):
+            return Out(states)
+        if isinstance(s, ast.Break):
+            o = Out()
+            o.brk |= set(states)
+            return o
+        if isinstance(s, ast.Continue):
+            o = Out()
+            o.cont |= set(states)
+            return o
+        if isinstance(s, ast.If):
+            pre = self.run_expr(s.test, states, ctx)
+            o = Out()
+            o.exc |= pre.exc
+            # a test of a local success flag decides per state
+            test, want = s.test, True
+            while isinstance(test, ast.UnaryOp) and isinstance(test.op, ast.Not):
+                test, want = test.operand, not want
+            yes, no = set(pre.fall), set(pre.fall)
+            if isinstance(test, ast.Name):
+                known = {st: dict(st.flags).get(test.id) for st in pre.fall}
+                yes = {st for st, v in known.items() if v is None or v == want}
+                no = {st for st, v in known.items() if v is None or v != want}
+            a = self.block(s.body, yes, ctx)
+            b = self.block(s.orelse, no, ctx)
+            o.absorb(a)
+            o.absorb(b)
+            return o
+        if isinstance(s, (ast.For, ast.AsyncFor, ast.While)):
+            head = s.iter if not isinstance(s, ast.While) else s.test
+            o = Out()
+            cur = set(states)
+            seen = set()
+            for _ in range(4):
+                pre = self.run_expr(head, cur, ctx)
+                o.exc |= pre.exc
+                body = self.block(s.body, pre.fall, ctx)
+                o.exc |= body.exc
+                o.ret |= body.ret
+                infinite = isinstance(s, ast.While) and isinstance(s.test, ast.Constant) and bool(s.test.value)
+                if not infinite:
+                    o.fall |= pre.fall          # zero further iterations
+                o.fall |= body.brk
+                nxt = body.fall | body.cont
+                if nxt <= seen:
+                    break
+                seen |= nxt
+                cur = nxt
+            if s.orelse:
+                e = self.block(s.orelse, o.fall - set(), ctx)
+                o.fall = e.fall
+                o.absorb(e, fall=False)
+            return o
+        if isinstance(s, (ast.With, ast.AsyncWith)) and len(s.items) == 1:
+            r = self.with_user_cm(s, states, ctx)
+            if r is not None:
+                return r
+        if isinstance(s, (ast.With, ast.AsyncWith)):
+            o = Out()
+            cur = set(states)
+            for item in s.items:
+                pre = self.run_expr(item.context_expr, cur, ctx)
+                o.exc |= pre.exc
+                cur = pre.fall
+                if isinstance(item.context_expr, ast.Name) and item.context_expr.id in ctx['tracked'] and isinstance(item.optional_vars, ast.Name):
+                    ctx['tracked'].add(item.optional_vars.id)
+            body = self.block(s.body, cur, ctx)
+            o.absorb(body)
+            return o
+        if isinstance(s, ast.Try) or type(s).__name__ == 'TryStar':
+            return self.try_stmt(s, states, ctx)
+        if isinstance(s, ast.Match):
+            o = self.run_expr(s.subject, states, ctx)
+            res = Out()
+            res.exc |= o.exc
+            for c in s.cases:
+                res.absorb(self.block(c.body, o.fall, ctx))
+            res.fall |= o.fall
+            return res
+        return Out(states)
+
+    def is_cm_decorator(self, d):
+        if isinstance(d, ast.Call):
+            return False
+        name = self.dotted(d) or ''
+        return name in ('contextlib.contextmanager', 'contextlib.asynccontextmanager')
+
+    def with_user_cm(self, s, states, ctx):
+        """`with helper(…): BODY` where `helper` is a generator-based context manager of this module / class: the helper's body is
+        interpreted with BODY in the place of its `yield` (so an `except` / `finally` around the `yield` sees BODY's exceptions)"""
+        call = s.items[0].context_expr
+        if isinstance(call, ast.Await):
+            call = call.value
+        if not isinstance(call, ast.Call):
+            return None
+        fn, with_self = self.resolve_call(call, ctx)
+        if fn is None or not any(self.is_cm_decorator(d) for d in fn.decorator_list):
+            return None
+        yields = [n for n in ast.walk(fn) if isinstance(n, (ast.Yield, ast.YieldFrom))]
+        if len(yields) != 1 or fn in self.stack or len(self.stack) >= self.MAX_DEPTH:
+            return None
+        a = fn.args
+        pos = list(a.posonlyargs) + list(a.args)
+        off = 1 if with_self else 0
+        tracked = set()
+        for i, arg in enumerate(call.args):
+            if isinstance(arg, ast.Name) and arg.id in ctx['tracked']:
+                if isinstance(arg, ast.Starred) or i + off >= len(pos):
+                    return None
+                tracked.add(pos[i + off].arg)
+        for k in call.keywords:
+            if isinstance(k.value, ast.Name) and k.value.id in ctx['tracked']:
+                if k.arg is None:
+                    return None
+                tracked.add(k.arg)
+        # other arguments are evaluated in the caller
+        pre = Out(states)
+        for arg in list(call.args) + [k.value for k in call.keywords]:
+            if not (isinstance(arg, ast.Name) and arg.id in ctx['tracked']):
+                r = self.run_expr(arg, pre.fall, ctx)
+                pre.exc |= r.exc
+                pre.fall = r.fall
+        inner = {'fn': fn, 'tracked': tracked, 'self': pos[0].arg if with_self and pos else None, 'nested': {}, 'quiet': ctx['quiet'],
+                 'consts': self.bind_consts(fn, call, off, ctx),
+                 'locals': {n.id for n in ast.walk(fn) if isinstance(n, ast.Name) and isinstance(n.ctx, ast.Store)} | {p.arg for p in pos + list(a.kwonlyargs)},
+                 'yield_body': (s.body, ctx, yields[0])}
+        self.stack.append(fn)
+        try:
+            o = self.block(fn.body, pre.fall, inner)
+        finally:
+            self.stack.pop()
+        o.fall |= o.ret
+        o.ret = set()
+        o.exc |= pre.exc
+        return o
+
+    def covers(self, htype):
+        """does this `except` clause catch the exception under analysis?  True / False / 'maybe'"""
+        if self.exc_covers is not None:
+            return self.exc_covers(htype)
+        if htype is None:
+            return True
+        types = htype.elts if isinstance(htype, ast.Tuple) else [htype]
+        for t in types:
+            nm = t.attr if isinstance(t, ast.Attribute) else t.id if isinstance(t, ast.Name) else None
+            if nm in CATCH_ALL:
+                return True
+        return 'maybe'
+
+    def try_stmt(self, s, states, ctx):
+        body = self.block(s.body, states, ctx)
+        o = Out()
+        o.ret |= body.ret
+        o.brk |= body.brk
+        o.cont |= body.cont
+        if s.orelse:
+            e = self.block(s.orelse, body.fall, ctx)
+            o.absorb(e)
+        else:
+            o.fall |= body.fall
+        hctx = dict(ctx, quiet=True)
+        for (st, handled) in body.exc:
+            remaining = True
+            for h in s.handlers:
+                c = self.covers(h.type)
+                if c is False:
+                    continue
+                r = self.block(h.body, {st}, hctx)
+                if r.fall or r.ret or r.brk or r.cont:
+                    self.swallowed = True
+                    o.fall |= r.fall
+                    o.ret |= r.ret
+                    o.brk |= r.brk
+                    o.cont |= r.cont
+                o.exc |= {(x, True) for x, _ in r.exc}
+                if c is True:
+                    remaining = False
+                    break
+                if c == 'some':
+                    self.partial_cover = h
+            if remaining:
+                o.exc.add((st, handled))
+        if s.finalbody:
+            fin = Out()
+            for name in ('fall', 'ret', 'brk', 'cont'):
+                cur = getattr(o, name)
+                if cur:
+                    r = self.block(s.finalbody, cur, hctx)
+                    getattr(fin, name).update(r.fall)
+                    fin.ret |= r.ret
+                    fin.exc |= r.exc
+            for (st, handled) in o.exc:
+                r = self.block(s.finalbody, {st}, hctx)
+                for x in r.fall:
+                    fin.exc.add((x, handled or x != st))
+                if r.ret:
+                    self.swallowed = True
+                    fin.ret |= r.ret
+                fin.exc |= {(x, True) for x, _ in r.exc}
+            o = fin
+        return o
+
+
+# =====================================================================================================================
+#  Part D — the S3 adapter seen through Parts A–C
+# =====================================================================================================================
+class View:
+    """SigV4 structure of ONE request, computed in stages (a stage that fails only takes the facts that need it with it).
+    Everything found by parsing the computed strings is re-synthesised with the composition rules of `SigV4.lean` and compared
+    with what the code computes, so a fact that is emitted describes the code by construction."""
+
+    def __init__(self, r):
+        self.r = r
+        self.cache = {}
+        self.nows = []
+
+    def get(self, stage):
+        if stage not in self.cache:
+            try:
+                self.cache[stage] = (True, getattr(self, 'stage_' + stage)())
+            except Unrec as e:
+                self.cache[stage] = (False, e)
+        ok, v = self.cache[stage]
+        if not ok:
+            raise v
+        return v
+
+    def is_ts(self, toks, fmt):
+        n = ts_now(toks, fmt)
+        if n is None:
+            return False
+        if n not in self.nows:
+            self.nows.append(n)
+        if n != self.nows[0]:
+            raise Unrec(f'{self.r.where}: two different clock readings are used in one request')
+        return True
+
+    def time_toks(self, fmt):
+        return [('t', ('tf', self.nows[0], f[1])) if f[0] == '%' else ('c', f) for f in _fmt_items(fmt)]
+
+    # ---- headers handed to the client, the Authorization value, the signature term
+    def stage_sent(self):
+        r = self.r
+        if r.headers[0] != 'dict':
+            raise Unrec(f'{r.where}: headers are not a dict built here')
+        sent = []
+        for e in r.headers[1]:
+            if e[0] == 'spread':
+                ok, v = const_of(e[1])
+                if not (ok and v is None) and e[1][0] != 'param' and not (e[1][0] == 'dict' and not e[1][1]):
+                    raise Unrec(f'{r.where}: headers merged from something unknown')
+                continue
+            ok, k = const_of(e[1])
+            if e[3] or not ok or not isinstance(k, str):
+                raise Unrec(f'{r.where}: conditional / computed header name')
+            sent.append((k, toks_of(e[2])))
+        is_sig = lambda x: x[0] == 't' and x[1][0] == 'hex' and x[1][1][0] == 'hmac'  # noqa: E731
+        auth = [(k, v) for k, v in sent if any(is_sig(x) for x in v)]
+        if len(auth) != 1:
+            raise Unrec(f'{r.where}: {len(auth)} headers carry an HMAC signature')
+        name, A = auth[0]
+        sigs = [x for x in A if is_sig(x)]
+        if len(sigs) != 1:
+            raise Unrec(f'{r.where}: more than one signature in the authorization header')
+        h = sigs[0][1][1]
+        if h[1] != 'sha256':
+            raise Unrec('signature is not HMAC-SHA256')
+        return {'sent': sent, 'auth_name': name, 'A': A, 'sig': sigs[0], 'key': h[2], 'msg': h[3]}
+
+    # ---- string to sign
+    def stage_sts(self):
+        s = self.get('sent')
+        sts = dec_toks(s['msg'])
+        order, alg, scope, crhex = [], None, None, None
+        for sg in split_toks(sts, NL):
+            if const_str(sg) is not None:
+                if alg is not None:
+                    raise Unrec('two constant lines in the string to sign')
+                alg = const_str(sg)
+                order.append(0)
+            elif self.is_ts(sg, AMZ_TS):
+                order.append(1)
+            elif len(sg) == 1 and sg[0][0] == 't' and sg[0][1][0] == 'hex' and sg[0][1][1][0] == 'hash':
+                if crhex is not None or sg[0][1][1][1] != 'sha256':
+                    raise Unrec('hash line of the string to sign')
+                crhex = sg[0]
+                order.append(3)
+            else:
+                if scope is not None:
+                    raise Unrec('unrecognised line in the string to sign')
+                scope = sg
+                order.append(2)
+        if alg is None or scope is None or crhex is None or sorted(order) != [0, 1, 2, 3]:
+            raise Unrec(f'string to sign has lines {order}')
+        return {'sts': sts, 'order': order, 'algorithm': alg, 'scope': scope, 'crhex': crhex}
+
+    # ---- credential scope
+    def stage_scope(self):
+        t = self.get('sts')
+        order, consts = [], []
+        for piece in split_toks(t['scope'], ('c', '/')):
+            if self.is_ts(piece, AMZ_DATE):
+                order.append(0)
+            elif piece == [('t', ('ctor', 'region'))]:
+                order.append(1)
+            elif const_str(piece) is not None:
+                consts.append(const_str(piece))
+                order.append(1 + len(consts))
+            else:
+                raise Unrec('unrecognised piece of the credential scope')
+        if sorted(order) != [0, 1, 2, 3]:
+            raise Unrec(f'credential scope has pieces {order}')
+        # re-synthesis: scopeOf / stringToSignOf
+        date, region = self.time_toks(AMZ_DATE), [('t', ('ctor', 'region'))]
+        scope = join_toks([[date, region, ctoks(consts[0]), ctoks(consts[1])][k] for k in order], [('c', '/')])
+        sts2 = join_toks([[ctoks(t['algorithm']), self.time_toks(AMZ_TS), scope, [t['crhex']]][k] for k in t['order']], [NL])
+        if scope != t['scope'] or sts2 != t['sts']:
+            raise Unrec('re-synthesis of the string to sign differs from what the code computes')
+        return {'order': order, 'service': consts[0], 'terminator': consts[1]}
+
+    # ---- signing key
+    def stage_key(self):
+        s, sc, t = self.get('sent'), self.get('scope'), self.get('sts')
+        key, chain = s['key'], []
+        while key[0] == 'hmac':
+            if key[1] != 'sha256':
+                raise Unrec('key chain is not HMAC-SHA256')
+            chain.append(key[3])
+            key = key[2]
+        chain.reverse()
+        k0 = dec_toks(key)
+        if not k0 or k0[-1] != ('t', ('ctor', 'access_key')) or const_str(k0[:-1]) is None:
+            raise Unrec('the key chain does not start from <constant> + access_key of the constructor')
+        codes, kterm = [], None
+        for m in chain:
+            mt = dec_toks(m)
+            if self.is_ts(mt, AMZ_DATE):
+                codes.append(0)
+            elif mt == [('t', ('ctor', 'region'))]:
+                codes.append(1)
+            elif const_str(mt) is not None and const_str(mt) == sc['service'] and 2 not in codes:
+                codes.append(2)
+            elif const_str(mt) is not None and kterm is None:
+                kterm = const_str(mt)
+                codes.append(3)
+            else:
+                raise Unrec('unrecognised message in the key chain')
+        if kterm is None or len(set(codes)) != len(codes):
+            raise Unrec(f'key chain {codes}')
+        # re-synthesis: signingKeyOf / signatureOf
+        date, region = self.time_toks(AMZ_DATE), [('t', ('ctor', 'region'))]
+        k = S('b', ctoks(const_str(k0[:-1])) + [('t', ('enc', ('ctor', 'access_key')))])
+        for code in codes:
+            k = ('hmac', 'sha256', k, encode_term(S('s', [date, region, ctoks(sc['service']), ctoks(kterm)][code])))
+        if ('t', ('hex', ('hmac', 'sha256', k, encode_term(S('s', t['sts']))))) != s['sig']:
+            raise Unrec('re-synthesis of the signature differs from what the code computes')
+        return {'prefix': const_str(k0[:-1]), 'chain': codes, 'terminator': kterm}
+
+    # ---- canonical request
+    def stage_cr(self):
+        t = self.get('sts')
+        method = toks_of(self.r.method)
+        cr = dec_toks(t['crhex'][1][1][2])
+        lines = split_toks(cr, NL)
+        quotes = [ln for ln in lines if len(ln) == 1 and ln[0][0] == 't' and ln[0][1][0] == 'quote']
+        ues = [ln for ln in lines if len(ln) == 1 and ln[0][0] == 't' and ln[0][1][0] == 'urlencode']
+        if len(quotes) != 1 or len(ues) > 1:
+            raise Unrec('canonical request: no single quoted path / more than one encoded query')
+        uri, query = quotes[0], (ues[0] if ues else [])
+        hdr = []
+        for ln in lines:
+            name = []
+            for i, x in enumerate(ln):
+                if x == ('c', ':'):
+                    if name and const_str(name) is not None:
+                        hdr.append((const_str(name), ln[i + 1:], ln))
+                    break
+                name.append(x)
+        if not hdr:
+            raise Unrec('canonical request: no header lines')
+        names, values = [n for n, _, _ in hdr], [v for _, v, _ in hdr]
+        used = [method, uri] + [ln for _, _, ln in hdr] + ([query] if query else [])
+        rest = [ln for ln in lines if ln and ln not in used]
+        sep = signed = None
+        for ln in list(rest):
+            s = const_str(ln)
+            if s is None or sep is not None or len(names) < 2:
+                continue
+            if s.startswith(names[0]) and names[1] in s[len(names[0]):]:
+                cand = s[len(names[0]):s.index(names[1], len(names[0]))]
+                if cand and cand.join(names) == s:
+                    sep, signed = cand, ln
+                    rest.remove(ln)
+        if sep is None:
+            raise Unrec('canonical request: the line of signed header names was not found')
+        if len(rest) != 1:
+            raise Unrec(f'canonical request: {len(rest)} candidate lines for the payload digest')
+        digest = rest[0]
+        # re-synthesis: canonicalHeaders / clientSignedHeaders / canonicalRequestOf
+        ch = join_toks([ctoks(n) + [('c', ':')] + v for n, v in zip(names, values)], [NL]) + [NL]
+        comps = [method, uri, query, ch, signed, digest]
+        import itertools
+        order = None
+        for perm in itertools.permutations(range(6)):
+            if join_toks([comps[k] for k in perm], [NL]) == cr:
+                order = list(perm)
+                break
+        if order is None:
+            raise Unrec('canonical request is not the six modelled fields joined by newlines')
+        return {'order': order, 'names': names, 'values': values, 'sep': sep, 'signed': signed, 'digest': digest, 'uri': uri, 'query': query}
+
+    # ---- where the values of the signed headers come from
+    def stage_sources(self):
+        c = self.get('cr')
+        sources = []
+        for v in c['values']:
+            if v == [('t', ('ctor', 'host'))]:
+                sources.append(0)
+            elif v == c['digest']:
+                sources.append(1)
+            elif self.is_ts(v, AMZ_TS):
+                sources.append(2)
+            else:
+                raise Unrec('value of a signed header is none of host / payload digest / x-amz-date')
+        return sources
+
+    # ---- Authorization template
+    def stage_template(self):
+        s, t, c = self.get('sent'), self.get('sts'), self.get('cr')
+        self.get('scope')
+        fields = [(4, [s['sig']]), (2, t['scope']), (3, c['signed']), (1, [('t', ('ctor', 'key_id'))])]
+        A, out, lit, i = s['A'], [], '', 0
+        while i < len(A):
+            for code, ft in fields:
+                if A[i:i + len(ft)] == ft:
+                    if lit:
+                        out.append((0, lit))
+                        lit = ''
+                    out.append((code, ''))
+                    i += len(ft)
+                    break
+            else:
+                if A[i][0] != 'c':
+                    raise Unrec('unrecognised field in the authorization header')
+                lit += A[i][1]
+                i += 1
+        if lit:
+            out.append((0, lit))
+        return out
+
+    def stage_sent_codes(self):
+        s, c = self.get('sent'), self.get('cr')
+        out = []
+        for k, v in s['sent']:
+            if v == c['digest']:
+                out.append((k, 1))
+            elif ts_now(v, AMZ_TS) is not None and self.is_ts(v, AMZ_TS):
+                out.append((k, 2))
+            elif k == s['auth_name']:
+                out.append((k, 3))
+        if not out:
+            raise Unrec('no header is set')
+        return out
+
+    # ---- the strings signed are the strings sent (URL = scheme://host + signed path [+ ? + signed query])
+    def stage_same_strings(self):
+        c = self.get('cr')
+        if not is_S(self.r.url, 's'):
+            raise Unrec('URL is not a string expression')
+        want = [('t', ('ctor', 'scheme'))] + ctoks('://') + [('t', ('ctor', 'host'))] + c['uri'] + (ctoks('?') + c['query'] if c['query'] else [])
+        if list(self.r.url[2]) != want:
+            raise Unrec('URL differs from scheme://host + signed path + signed query')
+        if 'follow_redirects' in self.r.kwargs or 'params' in self.r.kwargs:
+            raise Unrec('query parameters / redirects passed to the client')
+        return True
+
+    def stage_clock(self):
+        self.get('sts'), self.get('scope'), self.get('key'), self.get('cr'), self.get('sources'), self.get('sent_codes')
+        if len(self.nows) != 1 or self.nows[0][0] != 'now' or self.nows[0][2] != 'utc':
+            raise Unrec('not exactly one UTC clock reading')
+        return True
 
 
 def _bytes(b):
@@ -15,6 +3281,90 @@ def _bl(s):
     if isinstance(s, str):
         s = s.encode('utf-8')
     return _bytes(s)
+
+
+def _nats(xs):
+    return '[' + ', '.join(map(str, xs)) + ']'
+
+
+def adapter_class(mod):
+    """the class the module exports as `Client` (else the only class deriving from Backend)"""
+    vals = mod.assigns.get('Client') or []
+    if len(vals) == 1 and isinstance(vals[0], ast.Name) and vals[0].id in mod.classes:
+        return mod.classes[vals[0].id]
+    cands = [c for c in mod.classes.values() if any((isinstance(b, ast.Name) and b.id == 'Backend') or (isinstance(b, ast.Attribute) and b.attr == 'Backend') for b in c.bases)]
+    if len(cands) == 1:
+        return cands[0]
+    raise Unrec('adapter class not found')
+
+
+def on_exception_call(sym, expr):
+    """decorator expression → the `backoff.on_exception(…)` call it denotes (through names, constants, functools.partial), or None"""
+    try:
+        v = sym.deref(sym.ev(expr, St()), St())
+    except Exception:  # noqa: BLE001
+        return None
+    if v[0] == 'call' and v[1] == 'backoff.on_exception':
+        return ('on_exception', v[2], v[3])
+    return None
+
+
+def retried_root(sym, flow, public, stream='stream'):
+    """the function that is retried around the transfer of `stream` started by the public method → (function, names of the stream in
+    it, decorator call | None, Flow run of the public method)"""
+    if public not in flow.methods:
+        raise Unrec(f'{public} not found')
+    fn = flow.methods[public]
+    a = fn.args
+    if stream not in [p.arg for p in a.posonlyargs + a.args + a.kwonlyargs]:
+        raise Unrec(f'{public} has no parameter `{stream}`')
+    flow.reset()
+    flow.function(fn, {stream}, {FState()})
+    cands = [(fn, {stream})] + [(f, flow.entry_tracked[f]) for f in flow.entries]
+    for f, tracked in cands:
+        decos = [on_exception_call(sym, d) for d in f.decorator_list]
+        decos = [d for d in decos if d is not None]
+        if not decos:
+            continue
+        probe = Flow(flow.mod, flow.cls)
+        probe.function(f, tracked, {FState()})
+        if probe.consumes:
+            return f, tracked, decos[0]
+    return fn, {stream}, None
+
+
+STATUS_ONLY = {'HTTPStatusError'}
+TRANSPORT_ALL = {'RequestError', 'TransportError'}
+TRANSPORT_SOME = {'TimeoutException', 'ConnectTimeout', 'ReadTimeout', 'WriteTimeout', 'PoolTimeout', 'NetworkError', 'ConnectError',
+                  'ReadError', 'WriteError', 'CloseError', 'ProtocolError', 'LocalProtocolError', 'RemoteProtocolError', 'ProxyError',
+                  'UnsupportedProtocol', 'DecodingError', 'TooManyRedirects'}
+EVERYTHING = {'HTTPError', 'Exception', 'BaseException'}
+
+
+def http_covers(kind):
+    """`except` clause vs. one class of httpx failures ('status' = a response arrived, 'transport' = none did)"""
+    def covers(htype):
+        if htype is None:
+            return True
+        types = htype.elts if isinstance(htype, ast.Tuple) else [htype]
+        res = False
+        for t in types:
+            nm = t.attr if isinstance(t, ast.Attribute) else t.id if isinstance(t, ast.Name) else None
+            if nm in EVERYTHING:
+                return True
+            if nm in STATUS_ONLY:
+                if kind == 'status':
+                    return True
+            elif nm in TRANSPORT_ALL:
+                if kind == 'transport':
+                    return True
+            elif nm in TRANSPORT_SOME:
+                if kind == 'transport':
+                    res = 'some'
+            else:
+                raise Unrec('exception class not recognised: ' + ast.unparse(t))
+        return res
+    return covers
 
 
 def section(ctx):
@@ -42,496 +3392,275 @@ def section(ctx):
             notes[f's3.{name}'] = f'shape differs from the modelled one: {e!r}'[:300]
             emit(f'def {name} : Bool := false')
 
-    def func(*path):
-        f = ctx.find_func(tree, *path)
-        if f is None:
-            raise LookupError('.'.join(path))
-        return f
-
-    # ---- names imported from urllib.parse must be the library functions
-    imported = {}
-    for node in tree.body:
-        if isinstance(node, ast.ImportFrom) and node.module == 'urllib.parse':
-            for a in node.names:
-                imported[a.asname or a.name] = a.name
-    shadow = [n.name for n in ast.walk(tree) if isinstance(n, (ast.FunctionDef, ast.AsyncFunctionDef, ast.ClassDef)) and n.name in ('quote', 'quote_plus', 'urlencode')]
-    shadow += [t.id for n in ast.walk(tree) if isinstance(n, ast.Assign) for t in n.targets if isinstance(t, ast.Name) and t.id in ('quote', 'quote_plus', 'urlencode')]
-
-    def lib(name):
-        if name in shadow or name not in imported:
-            raise ValueError(f'{name} is not the urllib.parse function')
-        return imported[name]
-
     for nm in ('_prepare_request', '_list_objects', 'upload', 'upload_stream', '_put_object', '_put_object_stream', '__init__'):
         ctx.fp(f's3c.S3Compatible.{nm}', ctx.find_func(tree, 'S3Compatible', nm))
     for nm in ('_get_data_hexdigest', '_get_stream_hexdigest', '_hmac_sha256_digest', '_make_signature_key', '_make_canonical_headers',
                '_make_credential_scope', '_make_canonical_request', '_make_string_to_sign'):
         ctx.fp(f's3c.{nm}', ctx.find_func(tree, nm))
 
-    def lib_calls(fn, names):
-        out = []
-        for n in ast.walk(fn):
-            if isinstance(n, ast.Call) and isinstance(n.func, ast.Name) and imported.get(n.func.id) in names:
-                lib(n.func.id)
-                out.append(n)
-            elif isinstance(n, ast.Call) and isinstance(n.func, ast.Attribute) and n.func.attr in names:
-                raise ValueError('qualified call ' + un(n))
-        return out
+    # ---- every public method of the adapter is run on symbolic arguments; what reaches the HTTP client is analysed
+    setup = {}
 
-    def assigns(fn, target):
-        return [n for n in ast.walk(fn) if isinstance(n, ast.Assign) and len(n.targets) == 1 and un(n.targets[0]) == target]
+    def base():
+        if 'sym' not in setup:
+            mod = Mod(src)
+            cls = adapter_class(mod)
+            setup['mod'], setup['cls'], setup['sym'] = mod, cls, Sym(mod, cls)
+        return setup['sym']
 
-    def one_assign(fn, target):
-        a = assigns(fn, target)
-        if len(a) != 1:
-            raise ValueError(f'{len(a)} assignments to {target}')
-        return a[0].value
+    def views():
+        """→ {public method: [View of each request it sends]} (the evaluation is done once)"""
+        if 'views' not in setup:
+            try:
+                sym = base()
+                out = {}
+                for m in BACKEND_API:
+                    if m not in sym.methods:
+                        raise Unrec(f'public method {m} not found')
+                    reqs = requests_of(sym, m)
+                    if not reqs:
+                        raise Unrec(f'{m}: no request reaches the HTTP client')
+                    out[m] = [View(r) for r in reqs]
+                setup['views'] = (True, out)
+            except Exception as e:  # noqa: BLE001
+                setup['views'] = (False, e if isinstance(e, Unrec) else Unrec(f'evaluation failed: {e!r}'))
+        ok, v = setup['views']
+        if not ok:
+            raise v
+        return v
 
-    # ---- path quoting
+    def agree(fn, only=None):
+        """the value `fn(view)` that ALL requests (of the methods `only`) agree on"""
+        vals = []
+        for m, vs in views().items():
+            if only is not None and m not in only:
+                continue
+            for v in vs:
+                x = fn(v)
+                if x is not None and x not in vals:
+                    vals.append(x)
+        if len(vals) != 1:
+            raise Unrec(f'requests disagree / none applies: {vals!r}'[:200])
+        return vals[0]
+
+    def with_query(fn):
+        return lambda v: fn(v.get('cr')['query'][0][1]) if v.get('cr')['query'] else None
+
+    # ---- path quoting: the `quote` applied to the path that is signed
     def path_safe():
-        pr = func('S3Compatible', '_prepare_request')
-        # the call that encodes the `canonical_uri` parameter (this is the string that is signed); other uses of the quoting
-        # functions are only noted — whether the string sent equals the string signed is checked by the differential runs
-        allc = lib_calls(pr, ('quote', 'quote_plus', 'quote_from_bytes', 'unquote'))
-        calls = [c for c in allc if c.args and un(c.args[0]) == 'canonical_uri']
-        if len(allc) != len(calls):
-            notes['s3.other_quote_calls'] = [un(c) for c in allc if c not in calls]
-        assert len(calls) == 1, [un(c) for c in allc]
-        call = calls[0]
-        which = lib(call.func.id)
-        assert which == 'quote', which
-        safe = '/'
-        if len(call.args) >= 2:
-            safe = ast.literal_eval(call.args[1])
-        for k in call.keywords:
-            if k.arg == 'safe':
-                safe = ast.literal_eval(k.value)
-            elif k.arg is None or k.arg not in ('encoding', 'errors'):
-                raise ValueError(un(call))
-            else:
-                raise ValueError('non-default encoding/errors: ' + un(call))
-        assert len(call.args) <= 2
-        if isinstance(safe, str):
-            safe = safe.encode('ascii', 'ignore')
-        return _bytes([c for c in safe if c < 128])
+        def one(v):
+            q = v.get('cr')['uri'][0][1]
+            if q[3]:
+                raise Unrec('the signed path is encoded with quote_plus')
+            return bytes(q[2])
+        return _bytes(agree(one))
     item('s3PathSafeB', 'List UInt8', path_safe)
 
-    # ---- query string
-    def _query_call():
-        pr = func('S3Compatible', '_prepare_request')
-        calls = lib_calls(pr, ('urlencode',))
-        assert len(calls) == 1, [un(c) for c in calls]
-        call = calls[0]
-        assert len(call.args) == 1, un(call)
-        return call
-
+    # ---- query string: the `urlencode` whose result is signed
     def query_sorted():
-        call = _query_call()
-        arg = un(call.args[0])
-        if arg == 'sorted(query.items())':
-            return 'true'
-        if arg == 'query.items()' or arg == 'query':
-            return 'false'
-        raise ValueError(arg)
-
-    def query_via_plus():
-        call = _query_call()
-        via = 'quote_plus'
-        for k in call.keywords:
-            if k.arg == 'quote_via':
-                assert isinstance(k.value, ast.Name), un(k.value)
-                via = lib(k.value.id)
-            elif k.arg not in ('safe',):
-                raise ValueError('unexpected urlencode argument ' + str(k.arg))
-        assert via in ('quote', 'quote_plus'), via
-        return 'true' if via == 'quote_plus' else 'false'
-
-    def query_safe():
-        call = _query_call()
-        safe = ''
-        for k in call.keywords:
-            if k.arg == 'safe':
-                safe = ast.literal_eval(k.value)
-        if isinstance(safe, str):
-            safe = safe.encode('ascii', 'ignore')
-        return _bytes([c for c in safe if c < 128])
+        def one(ue):
+            seq = ue[1]
+            if seq[0] == 'sorted' and seq[1][0] == 'items':
+                return 'true'
+            if seq[0] == 'items':
+                return 'false'
+            raise Unrec('query pairs come from something else than [sorted] dict items')
+        return agree(with_query(one))
     item('s3QuerySortedB', 'Bool', query_sorted)
-    item('s3QueryViaQuotePlus', 'Bool', query_via_plus)
-    item('s3QuerySafeB', 'List UInt8', query_safe)
+    item('s3QueryViaQuotePlus', 'Bool', lambda: agree(with_query(lambda ue: 'true' if ue[2] == 'quote_plus' else 'false')))
+    item('s3QuerySafeB', 'List UInt8', lambda: _bytes(agree(with_query(lambda ue: bytes(ue[3])))))
 
-    def same_strings():
-        pr = func('S3Compatible', '_prepare_request')
-        url = [un(x.value) for x in assigns(pr, 'url')]
-        assert url == ['self.url + encoded_canonical_uri'], url
-        aug = [un(n) for n in ast.walk(pr) if isinstance(n, ast.AugAssign) and un(n.target) == 'url']
-        assert aug == ["url += f'?{query_string}'"], aug
-        call = one_assign(pr, 'canonical_request')
-        kw = {k.arg: un(k.value) for k in call.keywords}
-        assert un(call.func) == '_make_canonical_request' and not call.args
-        assert kw == {'method': 'method', 'canonical_uri': 'encoded_canonical_uri', 'canonical_query': 'query_string',
-                      'canonical_headers': '_make_canonical_headers(canonical_headers)', 'signed_headers': 'signed_headers',
-                      'payload_digest': 'payload_digest'}, kw
-        ifs = [un(n.test) for n in ast.walk(pr) if isinstance(n, ast.If)]
-        assert 'query' in ifs, ifs
-        ret = [un(n.value) for n in ast.walk(pr) if isinstance(n, ast.Return)]
-        assert ret == ['self._client.build_request(method, url, headers=headers, **kwargs)'], ret
-        init = func('S3Compatible', '__init__')
-        assert un(one_assign(init, 'self.url')) == "f'{scheme}://' + self.host", un(one_assign(init, 'self.url'))
-        assert un(one_assign(init, 'self.host')) == 'host'
-        return 'true'
-    flag('s3SignedStringsAreSentStrings', same_strings)
+    flag('s3SignedStringsAreSentStrings', lambda: agree(lambda v: v.get('same_strings')))
 
     # ---- signed headers: names, value sources, separator
-    SRC = {'self.host': 0, 'payload_digest': 1, 'x_amz_date': 2}
+    item('s3SignedHeadersB', 'List (List UInt8)', lambda: '[' + ', '.join(_bl(k) for k in agree(lambda v: v.get('cr')['names'])) + ']')
+    item('s3SignedHeaderSources', 'List Nat', lambda: _nats(agree(lambda v: v.get('sources'))))
+    item('s3SignedHeadersSep', 'List UInt8', lambda: _bl(agree(lambda v: v.get('cr')['sep'])))
+    # `name:value\n` per signed header — part of what the canonical-request stage re-synthesises
+    flag('s3CanonicalHeadersShape', lambda: agree(lambda v: bool(v.get('cr')) and bool(v.get('sources'))))
+    item('s3CanonicalRequestOrder', 'List Nat', lambda: _nats(agree(lambda v: v.get('cr')['order'])))
 
-    def _hdr_dict():
-        pr = func('S3Compatible', '_prepare_request')
-        d = one_assign(pr, 'canonical_headers')
-        assert isinstance(d, ast.Dict)
-        return [(ast.literal_eval(k), un(v)) for k, v in zip(d.keys, d.values)]
-    item('s3SignedHeadersB', 'List (List UInt8)', lambda: '[' + ', '.join(_bl(k) for k, _ in _hdr_dict()) + ']')
-    item('s3SignedHeaderSources', 'List Nat', lambda: '[' + ', '.join(str(SRC[v]) for _, v in _hdr_dict()) + ']')
+    def sts(v):
+        v.get('scope')              # includes the re-synthesis of the string to sign
+        return v.get('sts')
+    item('s3StringToSignOrder', 'List Nat', lambda: _nats(agree(lambda v: sts(v)['order'])))
+    item('s3Algorithm', 'List UInt8', lambda: _bl(agree(lambda v: sts(v)['algorithm'])))
+    item('s3ScopeOrder', 'List Nat', lambda: _nats(agree(lambda v: v.get('scope')['order'])))
+    item('s3Terminator', 'List UInt8', lambda: _bl(agree(lambda v: v.get('scope')['terminator'])))
 
-    def sh_sep():
-        pr = func('S3Compatible', '_prepare_request')
-        v = one_assign(pr, 'signed_headers')
-        assert isinstance(v, ast.Call) and isinstance(v.func, ast.Attribute) and v.func.attr == 'join' and un(v.args[0]) in ('canonical_headers', 'canonical_headers.keys()', 'list(canonical_headers)')
-        return _bl(ast.literal_eval(v.func.value))
-    item('s3SignedHeadersSep', 'List UInt8', sh_sep)
-
-    def ch_shape():
-        f = func('_make_canonical_headers')
-        body = [un(s) for s in f.body]
-        want = ["result = '\\n'.join((f'{name}:{value}' for name, value in headers.items()))", "result += '\\n'", 'return result']
-        assert body == want, body
-        return 'true'
-    flag('s3CanonicalHeadersShape', ch_shape)
-
-    def join_list(fn_name, names, allow_literal=None):
-        """`return SEP.join([a, b, …])` → (sep bytes, codes)"""
-        f = func(fn_name)
-        stmts = [s for s in f.body if not (isinstance(s, ast.Expr) and isinstance(s.value, ast.Constant))]
-        assert len(stmts) == 1 and isinstance(stmts[0], ast.Return), [un(s) for s in stmts]
-        v = stmts[0].value
-        assert isinstance(v, ast.Call) and isinstance(v.func, ast.Attribute) and v.func.attr == 'join' and isinstance(v.args[0], ast.List)
-        sep = ast.literal_eval(v.func.value)
-        codes, lits = [], []
-        for e in v.args[0].elts:
-            t = un(e)
-            if t in names:
-                codes.append(names[t])
-            elif isinstance(e, ast.Constant) and isinstance(e.value, str) and allow_literal is not None:
-                codes.append(allow_literal)
-                lits.append(e.value)
-            else:
-                raise ValueError(t)
-        return sep, codes, lits
-
-    def cr_order():
-        sep, codes, _ = join_list('_make_canonical_request', {'method': 0, 'canonical_uri': 1, 'canonical_query': 2, 'canonical_headers': 3,
-                                                              'signed_headers': 4, 'payload_digest': 5})
-        assert sep == '\n'
-        return '[' + ', '.join(map(str, codes)) + ']'
-    item('s3CanonicalRequestOrder', 'List Nat', cr_order)
-
-    def sts():
-        return join_list('_make_string_to_sign', {'amzdate': 1, 'credential_scope': 2,
-                                                   '_get_data_hexdigest(canonical_request.encode())': 3}, allow_literal=0)
-
-    def sts_order():
-        sep, codes, lits = sts()
-        assert sep == '\n' and len(lits) == 1
-        f = func('_make_string_to_sign')
-        assert [a.arg for a in f.args.args] == ['amzdate', 'credential_scope', 'canonical_request']
-        pr = func('S3Compatible', '_prepare_request')
-        assert un(one_assign(pr, 'string_to_sign')) == '_make_string_to_sign(x_amz_date, credential_scope, canonical_request)'
-        h = func('_get_data_hexdigest')
-        assert [un(s) for s in h.body] == ['return hashlib.sha256(data).hexdigest()']
-        return '[' + ', '.join(map(str, codes)) + ']'
-    item('s3StringToSignOrder', 'List Nat', sts_order)
-    item('s3Algorithm', 'List UInt8', lambda: _bl(sts()[2][0]))
-
-    def scope():
-        return join_list('_make_credential_scope', {'date': 0, 'region': 1, 'service': 2}, allow_literal=3)
-
-    def scope_order():
-        sep, codes, lits = scope()
-        assert sep == '/' and len(lits) == 1
-        pr = func('S3Compatible', '_prepare_request')
-        assert un(one_assign(pr, 'credential_scope')) == "_make_credential_scope(date=date, region=self.region, service='s3')"
-        return '[' + ', '.join(map(str, codes)) + ']'
-    item('s3ScopeOrder', 'List Nat', scope_order)
-    item('s3Terminator', 'List UInt8', lambda: _bl(scope()[2][0]))
-
-    def key_chain():
-        f = func('_make_signature_key')
-        body = [un(s) for s in f.body]
-        want = ["date_key = _hmac_sha256_digest(b'AWS4' + key.encode(), date.encode())",
-                'date_region_key = _hmac_sha256_digest(date_key, region.encode())',
-                'date_region_service_key = _hmac_sha256_digest(date_region_key, service.encode())',
-                "signing_key = _hmac_sha256_digest(date_region_service_key, b'aws4_request')",
-                'return signing_key']
-        assert body == want, body
-        h = func('_hmac_sha256_digest')
-        assert [a.arg for a in h.args.args] == ['key', 'message']
-        assert [un(s) for s in h.body] == ['return hmac.new(key, message, hashlib.sha256).digest()'], [un(s) for s in h.body]
-        pr = func('S3Compatible', '_prepare_request')
-        assert un(one_assign(pr, 'signing_key')) == "_make_signature_key(key=self.access_key, date=date, region=self.region, service='s3')"
-        assert un(one_assign(pr, 'signature')) == '_hmac_sha256_digest(signing_key, string_to_sign.encode()).hex()'
-        return 'true'
-    flag('s3KeyChainStandard', key_chain)
-
-    def key_chain_values():
-        f = func('_make_signature_key')
-        prev = None
-        prefix = None
-        codes, term = [], None
-        M = {'date.encode()': 0, 'region.encode()': 1, 'service.encode()': 2}
-        stmts = [st for st in f.body if not (isinstance(st, ast.Expr) and isinstance(st.value, ast.Constant))]
-        for st in stmts[:-1]:
-            assert isinstance(st, ast.Assign) and isinstance(st.value, ast.Call) and un(st.value.func) == '_hmac_sha256_digest', un(st)
-            a, b = st.value.args
-            if prev is None:
-                assert isinstance(a, ast.BinOp) and isinstance(a.op, ast.Add) and isinstance(a.left, ast.Constant) and un(a.right) == 'key.encode()', un(a)
-                prefix = a.left.value
-            else:
-                assert un(a) == prev, un(st)
-            if un(b) in M:
-                codes.append(M[un(b)])
-            else:
-                assert isinstance(b, ast.Constant) and isinstance(b.value, bytes) and term is None, un(b)
-                term = b.value
-                codes.append(3)
-            prev = un(st.targets[0])
-        assert isinstance(stmts[-1], ast.Return) and un(stmts[-1].value) == prev
-        assert isinstance(prefix, bytes) and term is not None
-        return prefix, codes, term
-    item('s3KeyPrefix', 'List UInt8', lambda: _bytes(key_chain_values()[0]))
-    item('s3KeyChain', 'List Nat', lambda: '[' + ', '.join(map(str, key_chain_values()[1])) + ']')
-    item('s3KeyTerminator', 'List UInt8', lambda: _bytes(key_chain_values()[2]))
-
-    def service():
-        pr = func('S3Compatible', '_prepare_request')
-        vals = set()
-        for n in ast.walk(pr):
-            if isinstance(n, ast.keyword) and n.arg == 'service':
-                vals.add(ast.literal_eval(n.value))
-        assert len(vals) == 1, vals
-        return _bl(vals.pop())
-    item('s3Service', 'List UInt8', service)
-
-    def clock():
-        pr = func('S3Compatible', '_prepare_request')
-        assert un(one_assign(pr, 'now')) == 'datetime.utcnow()', un(one_assign(pr, 'now'))
-        assert un(one_assign(pr, 'x_amz_date')) == "f'{now:%Y%m%dT%H%M%S}Z'", un(one_assign(pr, 'x_amz_date'))
-        assert un(one_assign(pr, 'date')) == "f'{now:%Y%m%d}'", un(one_assign(pr, 'date'))
-        imp = [un(n) for n in tree.body if isinstance(n, ast.ImportFrom) and n.module == 'datetime']
-        assert imp == ['from datetime import datetime'], imp
-        return 'true'
-    flag('s3ClockStandard', clock)
+    def key_chain_standard():
+        k = agree(lambda v: v.get('key'))
+        sc = agree(lambda v: v.get('scope'))
+        assert k == {'prefix': 'AWS4', 'chain': [0, 1, 2, 3], 'terminator': 'aws4_request'} and sc['service'] == 's3', (k, sc)
+    flag('s3KeyChainStandard', key_chain_standard)
+    item('s3KeyPrefix', 'List UInt8', lambda: _bl(agree(lambda v: v.get('key')['prefix'])))
+    item('s3KeyChain', 'List Nat', lambda: _nats(agree(lambda v: v.get('key')['chain'])))
+    item('s3KeyTerminator', 'List UInt8', lambda: _bl(agree(lambda v: v.get('key')['terminator'])))
+    item('s3Service', 'List UInt8', lambda: _bl(agree(lambda v: v.get('scope')['service'])))
+    flag('s3ClockStandard', lambda: agree(lambda v: v.get('clock')))
 
     def auth_template():
-        pr = func('S3Compatible', '_prepare_request')
-        v = one_assign(pr, 'authorization_header')
-        assert isinstance(v, ast.JoinedStr)
-        F = {'self.key_id': 1, 'credential_scope': 2, 'signed_headers': 3, 'signature': 4}
-        parts = []
-        for p in v.values:
-            if isinstance(p, ast.Constant):
-                parts.append(f'(0, {_bl(p.value)})')
-            else:
-                assert isinstance(p, ast.FormattedValue) and p.conversion == -1 and p.format_spec is None
-                parts.append(f'({F[un(p.value)]}, [])')
-        return '[' + ', '.join(parts) + ']'
+        t = agree(lambda v: v.get('template'))
+        return '[' + ', '.join(f'(0, {_bl(lit)})' if code == 0 else f'({code}, [])' for code, lit in t) + ']'
     item('s3AuthTemplate', 'List (Nat × List UInt8)', auth_template)
+    item('s3SentHeaders', 'List (List UInt8 × Nat)', lambda: '[' + ', '.join(f'({_bl(k)}, {c})' for k, c in agree(lambda v: v.get('sent_codes'))) + ']')
 
-    def sent_headers():
-        pr = func('S3Compatible', '_prepare_request')
-        S = {'payload_digest': 1, 'x_amz_date': 2, 'authorization_header': 3}
-        out = []
-        for n in ast.walk(pr):
-            if isinstance(n, ast.Assign) and isinstance(n.targets[0], ast.Subscript) and un(n.targets[0].value) == 'headers':
-                out.append((ast.literal_eval(n.targets[0].slice), S[un(n.value)]))
-        assert out
-        return '[' + ', '.join(f'({_bl(k)}, {c})' for k, c in out) + ']'
-    item('s3SentHeaders', 'List (List UInt8 × Nat)', sent_headers)
-
-    # ---- listing query
-    def list_keys():
-        """names of the query parameters `_list_objects` can send: the literal dict it starts with and the two conditional
-        additions (value = the `continuation_token` / `prefix` argument).  The conditions themselves are modelled by hand
-        (`listQuery`) and validated by the differential runs; their shape is only an informational flag."""
-        f = func('S3Compatible', '_list_objects')
-        q = ast.literal_eval(one_assign(f, 'query'))
-        assert isinstance(q, dict) and len(q) == 1 and all(isinstance(k, str) and isinstance(v, str) for k, v in q.items()), q
-        (k0, v0), = q.items()
-        byval = {}
-        for n in ast.walk(f):
-            if isinstance(n, ast.Assign) and isinstance(n.targets[0], ast.Subscript) and un(n.targets[0].value) == 'query':
-                byval.setdefault(un(n.value), []).append(ast.literal_eval(n.targets[0].slice))
-        assert set(byval) == {'continuation_token', 'prefix'} and all(len(v) == 1 for v in byval.values()), byval
-        return k0, v0, byval['continuation_token'][0], byval['prefix'][0]
+    # ---- listing query: the dict whose encoded items are signed by `list_files`
+    def list_dict():
+        def one(ue):
+            d = ue[1][1] if ue[1][0] == 'sorted' else ue[1]
+            if d[0] != 'items' or d[1][0] != 'dict':
+                raise Unrec('listing query is not a dict built in the adapter')
+            return d[1][1]
+        entries = agree(with_query(one), only=('list_files',))
+        fixed = [e for e in entries if e[0] == 'kv' and not e[3]]
+        cond = [e for e in entries if e[0] == 'kv' and e[3]]
+        if len(fixed) != 1 or len(cond) != 2 or len(entries) != 3:
+            raise Unrec('listing query: expected one fixed and two conditional parameters')
+        okk, k0 = const_of(fixed[0][1])
+        okv, v0 = const_of(fixed[0][2])
+        pfx = [e for e in cond if e[2] == ('param', 'prefix')]
+        tok = [e for e in cond if e[2] != ('param', 'prefix')]
+        if not (okk and okv and isinstance(k0, str) and isinstance(v0, str)) or len(pfx) != 1 or len(tok) != 1:
+            raise Unrec('listing query: parameters not recognised')
+        kt, kp = const_of(tok[0][1]), const_of(pfx[0][1])
+        if not (kt[0] and kp[0] and isinstance(kt[1], str) and isinstance(kp[1], str)):
+            raise Unrec('listing query: computed parameter names')
+        return k0, v0, kt[1], kp[1], tok[0], pfx[0]
 
     def list_shape():
-        f = func('S3Compatible', '_list_objects')
-        body = [un(s) for s in f.body]
-        subs = []
-        for n in f.body:
-            if isinstance(n, ast.If):
-                assert len(n.body) == 1 and not n.orelse
-                subs.append(un(n.test))
-        assert subs == ['continuation_token is not None', 'prefix'], subs
-        assert body[-1].replace('\n', '').replace(' ', '') == \
-            "returnawaitself._make_request('GET',f'/{self.bucket_name}',query=query,payload_digest=_empty_payload_digest)", body[-1]
+        _, _, _, _, tok, pfx = list_dict()
+        assert tok[3] == (neg(is_none_cond(tok[2])),), tok[3]          # sent iff a continuation token is known
+        assert pfx[3] == (as_cond(pfx[2]),), pfx[3]                    # sent iff the prefix is not empty
+        for v in views()['list_files']:
+            c = v.get('cr')
+            assert toks_of(v.r.method) == ctoks('GET')
+            assert c['uri'][0][1][1] == S('s', ctoks('/') + [('t', ('ctor', 'connection_string'))]), c['uri']
+            assert c['digest'] == [('t', ('hex', ('hash', 'sha256', S('b', []))))], c['digest']
     flag('s3ListShape', list_shape)
-    item('s3ListTypeKey', 'List UInt8', lambda: _bl(list_keys()[0]))
-    item('s3ListTypeValue', 'List UInt8', lambda: _bl(list_keys()[1]))
-    item('s3TokenKey', 'List UInt8', lambda: _bl(list_keys()[2]))
-    item('s3PrefixKey', 'List UInt8', lambda: _bl(list_keys()[3]))
+    item('s3ListTypeKey', 'List UInt8', lambda: _bl(list_dict()[0]))
+    item('s3ListTypeValue', 'List UInt8', lambda: _bl(list_dict()[1]))
+    item('s3TokenKey', 'List UInt8', lambda: _bl(list_dict()[2]))
+    item('s3PrefixKey', 'List UInt8', lambda: _bl(list_dict()[3]))
 
-    # ---- payload digests
+    # ---- payload digest of a stream, and where the stream stands afterwards
+    def flows():
+        """the streamed upload: the retried function around the transfer, and how the stream gets there"""
+        if 'flows' not in setup:
+            try:
+                sym = base()
+                mod, cls = setup['mod'], setup['cls']
+                fl = Flow(mod, cls)
+                root, tracked, deco = retried_root(sym, fl, 'upload_stream')
+                setup['flows'] = (True, {'flow': fl, 'root': root, 'tracked': tracked, 'deco': deco, 'public': fl.methods['upload_stream'],
+                                         'entry': set(fl.entries.get(root, ())), 'pre_seeks': fl.seeks_at_entry.get(root, 0),
+                                         'pre_consumes': len(fl.consume_nodes[:fl.consumes_at_entry.get(root, 0)])})
+            except Exception as e:  # noqa: BLE001
+                setup['flows'] = (False, e if isinstance(e, Unrec) else Unrec(f'flow analysis failed: {e!r}'))
+        ok, v = setup['flows']
+        if not ok:
+            raise v
+        return v
+
     def stream_rewind():
-        f = func('_get_stream_hexdigest')
-        seeks = [n for n in ast.walk(f) if isinstance(n, ast.Call) and isinstance(n.func, ast.Attribute) and n.func.attr == 'seek']
-        if not seeks:
+        f = flows()
+        if f['root'] is f['public']:
+            raise Unrec('the streamed upload is retried as a whole: no separate digest phase')
+        pos = {st.pos for st in f['entry']}
+        if not pos:
+            raise Unrec('the retried function is not reached')
+        if len(pos) == 1 and isinstance(next(iter(pos)), tuple):
+            return f'some {next(iter(pos))[1]}'
+        if f['pre_seeks'] == 0 and pos == {'moved'}:
             return 'none'
-        assert len(seeks) == 1 and un(seeks[0].func.value) == 'stream' and len(seeks[0].args) == 1 and not seeks[0].keywords, [un(x) for x in seeks]
-        c = ast.literal_eval(seeks[0].args[0])
-        assert isinstance(c, int) and c >= 0
-        # the rewind must be unconditional and come after the read loop
-        assert any(isinstance(st, ast.Expr) and st.value is seeks[0] for st in f.body), 'seek is not a top-level statement'
-        return f'some {c}'
+        raise Unrec(f'position of the stream after the digest is not fixed: {sorted(map(repr, pos))}')
     item('s3StreamRewindTo', 'Option Nat', stream_rewind)
 
+    def upload_request(m):
+        vs = views()[m]
+        assert len(vs) == 1, f'{m}: {len(vs)} requests'
+        return vs[0]
+
     def stream_digest_shape():
-        f = func('_get_stream_hexdigest')
-        body = [un(s) for s in f.body]
-        want = ['hasher = hashlib.sha256()', 'chunk_size = hasher.block_size * 10000',
-                "for chunk in iter(lambda: stream.read(chunk_size), b''):\n    hasher.update(chunk)",
-                'stream.seek(0)', 'return hasher.hexdigest()']
-        assert body == want, body
+        c = upload_request('upload_stream').get('cr')
+        d = c['digest']
+        assert len(d) == 1 and d[0][1][0] == 'hex' and d[0][1][1][:2] == ('hash', 'sha256'), d
+        data = d[0][1][1][2]
+        assert is_S(data, 'b') and len(data[2]) == 1 and data[2][0][0] == 't' and data[2][0][1][0] == 'readall' and data[2][0][1][1] == ('param', 'stream'), data
     flag('s3StreamDigestShape', stream_digest_shape)
 
     # ---- retried streamed PUT: which failures of an attempt are followed by a rewind of the stream
-    # `_put_object_stream` is retried by backoff on httpx.HTTPError = HTTPStatusError (a response arrived) ∪ the transport
-    # errors (RequestError: connect / read / write / protocol / timeout, no response).  The model needs to know, per class,
-    # whether the stream is back at a fixed position when the next attempt starts.
-    STATUS_ONLY = {'HTTPStatusError'}
-    TRANSPORT_ALL = {'RequestError', 'TransportError'}
-    TRANSPORT_SOME = {'TimeoutException', 'ConnectTimeout', 'ReadTimeout', 'WriteTimeout', 'PoolTimeout', 'NetworkError', 'ConnectError',
-                      'ReadError', 'WriteError', 'CloseError', 'ProtocolError', 'LocalProtocolError', 'RemoteProtocolError', 'ProxyError',
-                      'UnsupportedProtocol', 'DecodingError', 'TooManyRedirects'}
-    EVERYTHING = {'HTTPError', 'Exception', 'BaseException'}
-
-    def _covers(handler_type):
-        """(covers status?, covers transport?) of one `except` clause: True / False / 'some' (a proper subset)"""
-        if handler_type is None:
-            return True, True
-        types = handler_type.elts if isinstance(handler_type, ast.Tuple) else [handler_type]
-        st, tr = False, False
-        for t in types:
-            nm = t.attr if isinstance(t, ast.Attribute) else t.id if isinstance(t, ast.Name) else None
-            if nm in EVERYTHING:
-                st, tr = True, True
-            elif nm in STATUS_ONLY:
-                st = True
-            elif nm in TRANSPORT_ALL:
-                tr = True
-            elif nm in TRANSPORT_SOME:
-                tr = tr or 'some'
-            else:
-                raise ValueError('exception class not recognised: ' + un(t))
-        return st, tr
-
-    def _seek_consts(stmts):
-        """constants of top-level `stream.seek(<int>)` statements"""
-        out = []
-        for st in stmts:
-            if isinstance(st, ast.Expr) and isinstance(st.value, ast.Call) and un(st.value.func) == 'stream.seek':
-                c = st.value
-                assert len(c.args) in (1, 2) and not c.keywords, un(c)
-                if len(c.args) == 2:
-                    assert ast.literal_eval(c.args[1]) == 0, un(c)
-                v = ast.literal_eval(c.args[0])
-                assert isinstance(v, int) and v >= 0, un(c)
-                out.append(v)
-        return out
-
+    # The retried function is retried by backoff on httpx.HTTPError = HTTPStatusError (a response arrived) ∪ the transport errors
+    # (RequestError: connect / read / write / protocol / timeout, no response).  The model needs to know, per class, whether the
+    # stream is back at a fixed position when the next attempt reads it.
     def put_rewind():
-        """→ (on status, on transport, position).  Recognised places of the rewind: the start of the retried function (before the
-        request), the `except` clauses around the request, a `finally` clause."""
-        f = func('S3Compatible', '_put_object_stream')
-        deco = [un(d) for d in f.decorator_list]
-        assert deco == ['backoff_on_httperror'], deco
-        consts, st_rew, tr_rew = [], None, None
-        for top in f.body:
-            has_req = any(isinstance(n, ast.Call) and un(n.func) == 'self._make_request' for n in ast.walk(top))
-            if not has_req:
-                c = _seek_consts([top])
-                if c:                                   # rewinds at the start of every attempt
-                    consts += c
-                    st_rew = tr_rew = True
-                continue
-            if isinstance(top, ast.Try):
-                assert not any(isinstance(n, ast.Call) and un(n.func) == 'self._make_request'
-                               for part in (top.handlers, top.orelse, top.finalbody) for x in part for n in ast.walk(x)), 'request outside the try body'
-                fin = _seek_consts(top.finalbody)
-                for h in top.handlers:
-                    cs, ct = _covers(h.type)
-                    hc = _seek_consts(h.body)
-                    reraises = any(isinstance(x, ast.Raise) and x.exc is None for x in h.body)
-                    assert reraises, 'handler does not re-raise: ' + un(h)
-                    if cs and st_rew is None:
-                        st_rew = bool(hc or fin)
-                        consts += hc
-                    if ct and tr_rew is None:
-                        if ct == 'some':
-                            raise ValueError('handler covers only some transport errors: ' + un(h.type))
-                        tr_rew = bool(hc or fin)
-                        consts += hc
-                if fin:
-                    consts += fin
-                    st_rew = tr_rew = True
-            break
-        st_rew, tr_rew = bool(st_rew), bool(tr_rew)
-        assert len(set(consts)) <= 1, consts
-        return st_rew, tr_rew, (consts[0] if consts else 0)
+        f = flows()
+        if f['deco'] is None:
+            raise Unrec('the streamed PUT is not retried by backoff.on_exception')
+        res, where = {}, set()
+        for kind in ('status', 'transport'):
+            fl = Flow(setup['mod'], setup['cls'], exc_covers=http_covers(kind))
+            o = fl.function(f['root'], f['tracked'], {FState()})
+            if fl.partial_cover is not None:
+                raise Unrec('handler covers only some transport errors: ' + ast.unparse(fl.partial_cover.type))
+            if fl.swallowed:
+                raise Unrec('an exception of the transfer is swallowed')
+            # where a failed attempt (that had touched the stream) leaves it …
+            exits = {st.pos for st, _ in o.exc if st.pos != 'entry'} or {'moved'}
+            # … and from where the next attempt reads it (a seek at the start of the retried function counts as well)
+            nxt = Flow(setup['mod'], setup['cls'])
+            nxt.function(f['root'], f['tracked'], {FState(pos=p) for p in exits})
+            reads = {st.pos for _, _, st in nxt.consume_nodes}
+            if not reads:
+                raise Unrec('the retried function does not read the stream')
+            if all(isinstance(p, tuple) for p in reads):
+                res[kind] = True
+                where |= {p[1] for p in reads}
+            elif not any(isinstance(p, tuple) for p in reads):
+                res[kind] = False
+            else:
+                raise Unrec(f'stream position after a {kind} failure is not fixed: {sorted(map(repr, reads))}')
+        if len(where) > 1:
+            raise Unrec(f'different rewind positions {sorted(where)}')
+        return res['status'], res['transport'], (where.pop() if where else 0)
     item('s3PutRewindOnStatus', 'Bool', lambda: str(put_rewind()[0]).lower())
     item('s3PutRewindOnTransport', 'Bool', lambda: str(put_rewind()[1]).lower())
     item('s3PutRewindTo', 'Nat', lambda: str(put_rewind()[2]))
 
     def digest_outside_retry():
         """the payload digest is computed once, outside the retried function, and passed unchanged to every attempt"""
-        us = func('S3Compatible', 'upload_stream')
-        assert not us.decorator_list, [un(d) for d in us.decorator_list]
-        ps = func('S3Compatible', '_put_object_stream')
-        assert not [n for n in ast.walk(ps) if isinstance(n, ast.Call) and un(n.func) in ('_get_stream_hexdigest', '_get_data_hexdigest')]
-        assert not assigns(ps, 'payload_digest') and not assigns(ps, 'length')
+        f = flows()
+        assert f['root'] is not f['public'] and f['deco'] is not None, 'upload_stream itself is the retried function'
+        assert not [d for d in f['public'].decorator_list if on_exception_call(setup['sym'], d)], 'upload_stream is retried as a whole'
+        probe = Flow(setup['mod'], setup['cls'])
+        probe.function(f['root'], f['tracked'], {FState()})
+        assert len({id(n) for _, n, _ in probe.consume_nodes}) == 1, 'the retried function reads the stream more than once'
+        assert f['pre_consumes'], 'the stream is not read before the retried function'
     flag('s3StreamDigestOutsideRetry', digest_outside_retry)
 
     def upload_shape():
-        u = func('S3Compatible', 'upload')
-        assert [un(s) for s in u.body] == ['payload_digest = _get_data_hexdigest(data)', 'await self._put_object(name, data, payload_digest)'], [un(s) for s in u.body]
-        p = func('S3Compatible', '_put_object')
-        call = p.body[0].value.value
-        kw = {k.arg: un(k.value) for k in call.keywords}
-        assert un(call.func) == 'self._make_request' and [un(a) for a in call.args] == ["'PUT'", "f'/{self.bucket_name}/{name}'"]
-        assert kw == {'content': 'data', 'payload_digest': 'payload_digest', 'headers': "{'content-length': str(len(data))}"}, kw
-        us = func('S3Compatible', 'upload_stream')
-        b = [un(s) for s in us.body]
-        assert b[0] == 'payload_digest = _get_stream_hexdigest(stream)', b
-        assert b[1].replace('\n', '').replace(' ', '') == \
-            'awaitself._put_object_stream(name,stream,length=length,payload_digest=payload_digest,chunk_size=chunk_size)', b
-        ps = func('S3Compatible', '_put_object_stream')
-        calls = [n for n in ast.walk(ps) if isinstance(n, ast.Call) and un(n.func) == 'self._make_request']
-        assert len(calls) == 1
-        kw = {k.arg: un(k.value) for k in calls[0].keywords}
-        assert kw == {'content': 'utils.aiter_chunks(stream, chunk_size=chunk_size)', 'payload_digest': 'payload_digest',
-                      'headers': "{'content-length': str(length)}"}, kw
+        bucket_name = S('s', ctoks('/') + [('t', ('ctor', 'connection_string'))] + ctoks('/') + [('t', ('param', 'name'))])
+        u = upload_request('upload')
+        c = u.get('cr')
+        assert toks_of(u.r.method) == ctoks('PUT') and c['uri'][0][1][1] == bucket_name
+        assert u.r.kwargs == {'content': ('param', 'data')}, u.r.kwargs
+        assert c['digest'] == [('t', ('hex', ('hash', 'sha256', S('b', [('t', ('param', 'data'))]))))], c['digest']
+        extra = [(k, v) for k, v in u.get('sent')['sent'] if (k, v) not in [(a, b) for a, b in u.get('sent')['sent'] if any(a == n for n, _ in u.get('sent_codes'))]]
+        assert extra == [('content-length', [('t', ('tostr', ('len', ('param', 'data'))))])], extra
+        s = upload_request('upload_stream')
+        c = s.get('cr')
+        assert toks_of(s.r.method) == ctoks('PUT') and c['uri'][0][1][1] == bucket_name
+        kw = dict(s.r.kwargs)
+        body = kw.pop('content', None)
+        assert not kw and body is not None and body[0] == 'call' and body[1] == 'replicat.utils.aiter_chunks' and body[2] == (('param', 'stream'),) \
+            and body[3] == (('chunk_size', ('param', 'chunk_size')),), (kw, body)
+        extra = [(k, v) for k, v in s.get('sent')['sent'] if not any(k == n for n, _ in s.get('sent_codes'))]
+        assert extra == [('content-length', [('t', ('tostr', ('param', 'length')))])], extra
+        stream_digest_shape()
         return 'true'
     flag('s3UploadShape', upload_shape)
 
-    # ---- who puts requests on the wire: only `_prepare_request`, or also the HTTP library (followed redirects)?
+    # ---- who puts requests on the wire: only the adapter, or also the HTTP library (followed redirects)?
     # httpx runs the response hooks BEFORE it looks at the Location header (`_send_handling_redirects`), so a hook that calls
     # `raise_for_status()` unconditionally ends every exchange that was answered outside 2xx; redirects are followed only when
     # `follow_redirects` is true at the client or at a `send` / request call.  Both items are consumed by theorems of
@@ -547,8 +3676,19 @@ def section(ctx):
             notes[f's3.{name}'] = f'not recognised, emitted as {unsafe}: {e!r}'[:300]
             emit(f'def {name} : {ty} := {unsafe}')
 
+    def const_value(node):
+        """literal, or a name / attribute that resolves to a module-level (or class-level) constant"""
+        try:
+            return ast.literal_eval(node)
+        except Exception:  # noqa: BLE001
+            pass
+        ok, v = const_of(base().deref(base().ev(node, St()), St()))
+        if not ok:
+            raise Unrec('not a constant: ' + un(node))
+        return v
+
     def _client_ctor_calls():
-        return [n for n in ast.walk(tree) if isinstance(n, ast.Call) and un(n.func) in ('httpx.AsyncClient', 'httpx.Client', 'AsyncClient', 'Client')]
+        return [n for n in ast.walk(tree) if isinstance(n, ast.Call) and un(n.func).split('.')[-1] in ('AsyncClient', 'Client')]
 
     def follow_redirects():
         yes = False
@@ -556,7 +3696,7 @@ def section(ctx):
             if isinstance(n, ast.Call):
                 for k in n.keywords:
                     if k.arg == 'follow_redirects':
-                        v = ast.literal_eval(k.value)          # raises for a non-literal → unsafe value
+                        v = const_value(k.value)               # raises for a non-constant → unsafe value
                         assert isinstance(v, bool), un(n)
                         yes = yes or v
                     elif k.arg is None and un(n.func).split('.')[-1] in ('send', 'request', 'stream', 'get', 'put', 'head', 'delete', 'post',
@@ -566,6 +3706,8 @@ def section(ctx):
                 for t in (n.targets if isinstance(n, ast.Assign) else [n.target]):
                     if isinstance(t, ast.Attribute) and t.attr == 'follow_redirects':
                         raise ValueError('assignment to ' + un(t))
+            elif isinstance(n, ast.Constant) and n.value == 'follow_redirects':
+                raise ValueError('the name follow_redirects as a string (dynamic keyword?)')
         return 'true' if yes else 'false'
     unsafe_default('s3FollowRedirects', 'Bool', follow_redirects, 'true')
 
@@ -574,7 +3716,7 @@ def section(ctx):
         for c in _client_ctor_calls():
             for k in c.keywords:
                 if k.arg == 'max_redirects':
-                    vals.add(ast.literal_eval(k.value))
+                    vals.add(const_value(k.value))
         if not vals:              # the library's default, read from the installed httpx (text; the extractor may run without httpx importable)
             import glob
             import re
@@ -587,19 +3729,24 @@ def section(ctx):
     unsafe_default('s3MaxRedirects', 'Nat', max_redirects, '20')
 
     def hook_raises():
-        """true iff the hook registered for responses calls `<response>.raise_for_status()` on every path: the call is a top-level
-        statement (or the first statement of a top-level `try` whose handlers all end in `raise`), preceded only by plain
-        assignments / expression statements."""
-        ctors = _client_ctor_calls()
-        assert len(ctors) == 1, [un(c) for c in ctors]
-        hooks = None
-        for k in ctors[0].keywords:
-            if k.arg == 'event_hooks':
-                assert isinstance(k.value, ast.Dict), un(k.value)
-                for kk, vv in zip(k.value.keys, k.value.values):
-                    if ast.literal_eval(kk) == 'response':
-                        assert isinstance(vv, (ast.List, ast.Tuple)), un(vv)
-                        hooks = [un(e) for e in vv.elts]
+        """true iff every hook-registered exchange that was answered outside 2xx ends in `<response>.raise_for_status()`: on every
+        path through one registered response hook (helper calls followed) that call is reached — directly, under
+        `if not response.is_success`, after `if response.is_success: return`, or as the first statement of a `try` whose handlers
+        all end in `raise`."""
+        sym = base()
+        mod = setup['mod']
+        clients = [v for v in sym.init_attrs().values() if is_client(v)]
+        assert len(clients) == 1, f'{len(clients)} HTTP clients'
+        assert len(_client_ctor_calls()) == 1, 'more than one client constructed'
+        hooks = []
+        for k, v in clients[0][3]:
+            if k == 'event_hooks':
+                assert v[0] == 'dict', 'event_hooks is not a dict built here'
+                for e in v[1]:
+                    assert e[0] == 'kv' and not e[3] and const_of(e[1])[0], 'event_hooks entry'
+                    if const_of(e[1])[1] == 'response':
+                        assert e[2][0] in ('list', 'tuple'), 'response hooks are not a list'
+                        hooks += list(e[2][1])
         assert hooks, 'no response hook registered'
         for n in ast.walk(tree):          # the hook table must not be changed elsewhere
             if isinstance(n, ast.Attribute) and n.attr == 'event_hooks':
@@ -611,25 +3758,70 @@ def section(ctx):
                 v = v.value
             return isinstance(v, ast.Call) and un(v.func) == f'{param}.raise_for_status' and not v.args and not v.keywords
 
+        def success_test(test, param):
+            """→ True: test ⇔ response.is_success, False: test ⇔ not response.is_success, None: something else"""
+            if isinstance(test, ast.UnaryOp) and isinstance(test.op, ast.Not):
+                r = success_test(test.operand, param)
+                return None if r is None else not r
+            if un(test) == f'{param}.is_success':
+                return True
+            return None
+
         def plain(st):
-            return isinstance(st, (ast.Assign, ast.AnnAssign, ast.AugAssign, ast.Expr)) and not any(
+            return isinstance(st, (ast.Assign, ast.AnnAssign, ast.AugAssign, ast.Expr, ast.Pass)) and not any(
                 isinstance(x, (ast.Return, ast.Raise, ast.Yield, ast.YieldFrom)) for x in ast.walk(st))
 
-        def raises_always(hname):
-            f = func(hname)
-            param = f.args.args[0].arg
-            for st in f.body:
+        def helper(st, param, depth):
+            v = st.value if isinstance(st, ast.Expr) else None
+            if isinstance(v, ast.Await):
+                v = v.value
+            if isinstance(v, ast.Call) and isinstance(v.func, ast.Name) and v.func.id in mod.funcs and depth < 4 \
+                    and len(v.args) == 1 and not v.keywords and isinstance(v.args[0], ast.Name) and v.args[0].id == param:
+                f = mod.funcs[v.func.id]
+                if len(f.args.args) == 1 and not f.decorator_list:
+                    return f
+            return None
+
+        def always(stmts, param, depth=0):
+            """does control, for a response outside 2xx, always reach raise_for_status() in this statement list?"""
+            for st in stmts:
                 if is_rfs(st, param):
                     return True
-                if isinstance(st, ast.Try):
-                    body = [s for s in st.body]
-                    assert body and is_rfs(body[0], param), 'try does not start with raise_for_status(): ' + un(st)[:120]
-                    for h in st.handlers:
-                        assert isinstance(h.body[-1], ast.Raise), 'handler swallows the error: ' + un(h)[:120]
-                    assert not any(isinstance(x, ast.Return) for s in st.finalbody for x in ast.walk(s)), 'return in finally'
+                h = helper(st, param, depth)
+                if h is not None and always(h.body, h.args.args[0].arg, depth + 1):
                     return True
+                if isinstance(st, ast.Try):
+                    if st.body and (is_rfs(st.body[0], param) or (isinstance(st.body[0], ast.If) and always(st.body[:1], param, depth))):
+                        for hd in st.handlers:
+                            assert isinstance(hd.body[-1], ast.Raise), 'handler swallows the error: ' + un(hd)[:120]
+                        assert not any(isinstance(x, ast.Return) for s in st.finalbody for x in ast.walk(s)), 'return in finally'
+                        return True
+                    raise AssertionError('try does not start with raise_for_status(): ' + un(st)[:120])
+                if isinstance(st, ast.If):
+                    ok = success_test(st.test, param)
+                    if ok is True:          # 2xx branch: may return; the other branch / the rest is what matters
+                        if st.orelse and always(st.orelse, param, depth):
+                            return True
+                        assert not st.orelse or all(plain(x) for x in st.orelse), 'statement before raise_for_status(): ' + un(st)[:120]
+                        continue
+                    if ok is False:
+                        if always(st.body, param, depth):
+                            return True
+                        raise AssertionError('non-2xx branch without raise_for_status(): ' + un(st)[:120])
+                    if st.orelse and always(st.body, param, depth) and always(st.orelse, param, depth):
+                        return True
+                    assert all(plain(x) for x in st.body + st.orelse), 'statement before raise_for_status(): ' + un(st)[:120]
+                    continue
                 assert plain(st), 'statement before raise_for_status(): ' + un(st)[:120]
-            raise ValueError('no raise_for_status() in ' + hname)
-        assert any(raises_always(h) for h in hooks if h.isidentifier()), hooks
+            return False
+
+        def raises_always(h):
+            if h[0] != 'func':
+                return False
+            f = h[1]
+            if f.decorator_list or len(f.args.args) != 1:
+                return False
+            return always(f.body, f.args.args[0].arg)
+        assert any(raises_always(h) for h in hooks), [h[1].name if h[0] == 'func' else h[0] for h in hooks]
         return 'true'
     unsafe_default('s3HookRaisesOnNon2xx', 'Bool', hook_raises, 'false')
